@@ -104,7 +104,16 @@ RULE = (
     "r = 1e-300..1e12 row-wise relative to r^l; azimuth / polar angles near 2^10..2^20; results modified in place by the caller "
     "before the next call; the routines after one another on shared arrays; empty point arrays; polar angles outside [0, pi] "
     "within 1e-12..1e-4 of a pole (both routines vs the model and vs the definition: the reduction of the SciPy-based routine, "
-    "arccos(cos(phi)) until c2ff251, lost up to eight digits there)"
+    "arccos(cos(phi)) until c2ff251, lost up to eight digits there). Round 4: corr and oracle run as independent parts (an exception "
+    "raised inside the library is recorded as <part>:raises, any other one re-raised after all parts have run); point arrays held "
+    "by Grid / AngularGrid objects (integer, float32, read-only, strided, negative stride, Fortran order, slice of a wider array) "
+    "through convert_cart_to_sph into the harmonics routines vs the float64 pipeline; integer / float32 / bool points against every "
+    "kind of fractional centre; centre omitted / None / zeros of every kind; angle arrays as columns / rows of 2-D arrays and "
+    "zero-stride broadcasts; (r, theta, phi) as views into a larger caller array passed two and three times to every routine (vs "
+    "pristine copies, guard cells unchanged); complex / longdouble / float32 / integer / bool / 0-d derivative data (linearity); "
+    "25 calls that end in an exception before the accepted ones, in this process and first in a fresh process; radii 1e-150..1e150 "
+    "about centres of the same magnitude with r^l in [1e-300, 1e300]; the derivative routine at l_max > 150 next to the poles and "
+    "across sin(phi) = 0; every pairing of (rows, points) with sizes 1 and 2 and rows = points"
 )
 TRUSTED_BASE = [
     "Lean 4.33 kernel; axioms propext, Classical.choice, Quot.sound only (audited per theorem)",
@@ -346,6 +355,26 @@ def _variants(ctx: Ctx):
             _step(f"R = fn({L}, A, Ap); R[...] = 5.0", f"fn({L}, A, Ap)", L, ta, pa, same=0, cls="result-modified"),
             _step(f"R = fn({L2}, B, Bp); R *= -1.0; R2 = fn({L}, A, A); R2[...] = np.nan", f"fn({L2}, B, Bp)", L2, t2, p2, same=9, cls="result-modified")]))
 
+    # round 4, class 20: every pair (number of rows (l_max+1)^2, number of points) different / equal, sizes 1 and 2 (for the derivative
+    # routine also equal to the leading axis 2); every point different, the first one at the pole, the last one outside [0, pi]
+    for fn in ("recursion", "scipy", "deriv"):
+        for L, N in ((0, 1), (0, 2), (0, 3), (1, 1), (1, 2), (1, 4), (1, 3), (2, 9), (2, 2), (3, 1), (3, 16)):
+            ts = [u(-6, 6) for _ in range(N)]
+            ps = [0.0 if fn != "deriv" else u(0.2, 2.9)] + [u(0.2, 2.9) for _ in range(N - 2)] + ([-u(0.2, 2.9)] if N > 1 else [])
+            one(fn, f"shape:rows={(L + 1) ** 2},points={N}", _mk("t", "float64", ts) + "; " + _mk("p", "float64", ps), f"fn({L}, t, p)", L, ts, ps)
+    # round 4, class 14: the angle arrays as views of a two-dimensional (r, theta, phi) array (columns of a C-ordered, rows of a
+    # Fortran-ordered one, reversed), zero-stride broadcasts of one value, longer arrays sliced with a step
+    for fn in ("recursion", "scipy", "deriv"):
+        L = 3
+        M = [[u(0.3, 2.0), tf[k], pf[k]] for k in range(4)]
+        tcol, pcol = [m[1] for m in M], [m[2] for m in M]
+        one(fn, "dtype:columns-of-2d", f"M = np.array({M!r}); t = M[:, 1]; p = M[:, 2]", f"fn({L}, t, p)", L, tcol, pcol)
+        one(fn, "dtype:rows-of-fortran-2d", f"M = np.asfortranarray(np.array({M!r}).T); t = M[1]; p = M[2]", f"fn({L}, t, p)", L, tcol, pcol)
+        one(fn, "dtype:columns-reversed", f"M = np.array({M[::-1]!r})[::-1]; t = M[:, 1]; p = M[:, 2]", f"fn({L}, t, p)", L, tcol, pcol)
+        one(fn, "dtype:zero-stride", f"t = np.broadcast_to(np.float64({tf[0]!r}), (4,)); p = np.array({pf!r})", f"fn({L}, t, p)", L, [tf[0]] * 4, pf)
+        one(fn, "dtype:zero-stride-both", f"t = np.broadcast_to(np.float64({tf[1]!r}), (3,)); p = np.broadcast_to(np.float64({pf[2]!r}), (3,))", f"fn({L}, t, p)", L,
+            [tf[1]] * 3, [pf[2]] * 3)
+        one(fn, "dtype:float32-columns-of-2d", f"M = np.array({M!r}, dtype=np.float32); t = M[:, 1]; p = M[:, 2]", f"fn({L}, t, p)", L, tcol, pcol, single=True)
     # solid harmonics: rows (r, theta, phi)
     sf = [[u(0.3, 2.0), tf[k], pf[k]] for k in range(4)] + [[0.0, tf[0], pf[1]], [1.0, tf[1], pf[0]]]
     si = [[1, 0, 1], [2, 1, 2], [3, 5, -1], [0, 2, 3]]
@@ -367,6 +396,16 @@ def _variants(ctx: Ctx):
     so = sf + sf[::-1] + [sf[1]] * 3
     one("solid", "order:reversed-repeated-concatenated", f"s = np.array({so!r})", "fn(3, s)", 3, *cols(so))
     one("solid", "call:keyword-reordered", f"s = np.array({sf!r})", "fn(sph_pts=s, l_max=3)", 3, t, p, r)
+    # round 4: shapes (M = 1, 2, 3 = number of columns, M = number of rows 4), views held by something else, integer / zero-stride radii
+    for L, M in ((0, 1), (0, 2), (0, 3), (1, 1), (1, 3), (1, 4), (2, 2), (3, 3)):
+        sm = [[u(0.3, 2.0), u(-6, 6), u(0.2, 2.9)] for _ in range(M - 1)] + [[u(0.3, 2.0), u(-6, 6), -u(0.2, 2.9)]]
+        one("solid", f"shape:rows={(L + 1) ** 2},points={M}", f"s = np.array({sm!r})", f"fn({L}, s)", L, *cols(sm))
+    t, p, r = cols(sf)
+    one("solid", "dtype:slice-of-wider", f"W = np.hstack([np.full(({len(sf)}, 2), 7.0), np.array({sf!r}), np.full(({len(sf)}, 1), 7.0)]); s = W[:, 2:5]", "fn(3, s)", 3, t, p, r)
+    one("solid", "dtype:transposed-fortran", f"s = np.asfortranarray(np.array({sf!r}).T).T", "fn(3, s)", 3, t, p, r)
+    one("solid", "dtype:negative-stride", f"s = np.array({sf[::-1]!r})[::-1]", "fn(3, s)", 3, t, p, r)
+    one("solid", "dtype:stacked-zero-stride-radius", f"s = np.stack([np.broadcast_to(np.float64(1.5), ({len(sf)},)), np.array({t!r}), np.array({p!r})], axis=1)", "fn(3, s)", 3,
+        t, p, [1.5] * len(sf))
     sa, sb = sf[:3], [[u(0.3, 2.0), u(0.2, 2.9), u(3.4, 6.0)] for _ in range(3)]
     (ta, pa, ra), (t2, p2, r2), (tc, pc, rc) = cols(sa), cols(sb), cols(sf)
     out.append(dict(fn="solid", cls="history", steps=[
@@ -654,6 +693,26 @@ def _c2s_variants(ctx: Ctx):
         one(f"call:{name}", P(pf) + f"; c = np.array({cf!r})", call, pf, c)
     po = pf + pf[::-1] + [pf[1]] * 3
     one("order:reversed-repeated-concatenated", P(po) + f"; c = np.array({cf!r})", "fn(P, c)", po, cf)
+    # round 4, class 20: N = 1, 2, 3 (= number of columns: a transposed read goes unnoticed only for a symmetric array), 4; first row the
+    # centre, last row the origin, all coordinates different.  Class 15: omitted / None / the default value / zeros of another kind
+    for N in (1, 2, 3, 4):
+        rows = ([list(cf)] + [[u(-5, 5), u(-5, 5), u(-5, 5)] for _ in range(N - 2)] + ([[0.0, 0.0, 0.0]] if N > 1 else []))
+        one(f"shape:N={N}", P(rows) + f"; c = np.array({cf!r})", "fn(P, c)", rows, cf)
+        one(f"shape:N={N},no-centre", P(rows), "fn(P)", rows, Z)
+    for name, call in (("explicit-None-keyword", "fn(points=P, center=None)"), ("zeros-int-list", "fn(P, [0, 0, 0])"), ("zeros-tuple", "fn(P, (0.0, 0.0, 0.0))"),
+                       ("zeros-int-array", "fn(P, np.zeros(3, dtype=int))"), ("zeros-float32", "fn(P, center=np.zeros(3, dtype=np.float32))"),
+                       ("zeros-bool", "fn(P, np.zeros(3, dtype=bool))"), ("negative-zero", "fn(P, np.array([-0.0, -0.0, -0.0]))")):
+        one(f"call:centre-{name}", P(pf), call, pf, Z)
+    # class 14: integer / bool / float32 points against every kind of centre (a cast of the centre to the dtype of the points shows)
+    cq = [0.25, -1.5, 2.75]
+    for pk, pdt in (("int64", "np.int64"), ("int32", "np.int32"), ("int8", "np.int8"), ("float32", "np.float32")):
+        for ck, csrc in (("float-list", f"{cq!r}"), ("float64-array", f"np.array({cq!r})"), ("float32-array", f"np.array({cq!r}, dtype=np.float32)"),
+                         ("tuple", f"tuple({cq!r})"), ("read-only", f"np.array({cq!r})[::-1][::-1]")):
+            # NumPy's promotion: float32 / int8 points with a float32 centre are subtracted in single precision
+            one(f"dtype:points-{pk},centre-fractional-{ck}", P(pi_, f", dtype={pdt}") + f"; c = {csrc}", "fn(P, c)", pi_, cq,
+                single=pk in ("float32", "int8") and ck == "float32-array")
+    one("dtype:points-bool,centre-fractional", "P = np.array([[True, False, True], [False, False, False], [True, True, False]]); c = " + repr(cq), "fn(P, c)",
+        [[1, 0, 1], [0, 0, 0], [1, 1, 0]], cq)
     # signed zeros (r = 0 with theta = -pi is inside the documented ranges)
     nz = [[-0.0, -0.0, -0.0], [-0.0, -0.0, 1.0], [-1.0, -0.0, 0.0], [0.0, 0.0, -0.0], [0.0, -0.0, -2.0]]
     one("signed-zero", P(nz), "fn(P)", nz, Z)
@@ -836,7 +895,10 @@ def _corr_high_degree(ctx: Ctx, ut):
     model overflows at Float): d/dtheta = -m Y_{l,-m}; d/dphi vs a 4th-order central difference of the model rows;
     solid = sqrt(4 pi/(2l+1)) r^l Y_lm."""
     angs = [(0.3, PI / 2, "equator"), (2.1, PI / 2 - 0.2, "near-equator"), (1.0, 1.0, "principal"), (4.0, 2.6, "principal"),
-            (-2.5, -1.2, "any"), (7.0, PI + 0.9, "any")]
+            (-2.5, -1.2, "any"), (7.0, PI + 0.9, "any"),
+            # round 4, class 19: where the consumed layers (the recursion, SciPy's sph_harm_y) are tiny / change sign: next to the poles,
+            # either side of sin(phi) = 0 (measured on the pinned tree: accurate to 1e-11 relative down to |tan phi| = 1e-10)
+            (0.9, 1e-3, "near-pole"), (2.2, PI + 2e-3, "near-pole"), (1.0, -1e-3, "near-pole")]
     h = 1e-4
     for L in _hi_degrees(ctx):
         lms = py_lm_order(L)
@@ -881,9 +943,11 @@ def _corr_high_degree(ctx: Ctx, ut):
 
 def _oracle_high_degree(ctx: Ctx, ut, mp):
     """The same beyond l_max = 150 against the definition evaluated with 2 l + 150 digits, on a few rows."""
-    angs = [(0.3, PI / 2, "equator"), (1.0, 1.0, "principal"), (-2.5, -1.2, "any"), (7.0, PI + 0.9, "any")]
+    angs = [(0.3, PI / 2, "equator"), (1.0, 1.0, "principal"), (-2.5, -1.2, "any"), (7.0, PI + 0.9, "any"),
+            (0.9, 1e-3, "near-pole"), (2.2, PI + 2e-3, "near-pole"), (1.0, -1e-3, "near-pole"), (0.4, PI - 1e-6, "near-pole"), (0.3, 1e-8, "near-pole"),
+            (0.3, -3e-9, "near-pole")]
     for L in _hi_degrees(ctx):
-        rs = [1.0, ctx.rng.uniform(0.6, 0.95), ctx.rng.uniform(1.05, 1.5), 1.0]
+        rs = [1.0, ctx.rng.uniform(0.6, 0.95), ctx.rng.uniform(1.05, 1.5), 1.0] + [1.0, ctx.rng.uniform(0.9, 1.1)] * 3
         th, ph = np.array([a[0] for a in angs]), np.array([a[1] for a in angs])
         d = np.asarray(ut.generate_derivative_real_spherical_harmonics(L, th, ph), dtype=float)
         S = np.asarray(ut.solid_harmonics(L, np.array([[r, a[0], a[1]] for r, a in zip(rs, angs)])), dtype=float)
@@ -1350,6 +1414,443 @@ def _cross_routine_history(ctx: Ctx, ut, kind, mp=None):
             first.setdefault(name, got)
 
 
+
+# --------------------------------------------------------------------------------------
+# round 4: independent parts (an exception in one part does not hide what the others find); arrays held by objects;
+# one argument object for several requests; value kinds of the data; rejected calls; extreme radii; small / unequal shapes
+# --------------------------------------------------------------------------------------
+def _run_parts(ctx: Ctx, kind, ut, parts):
+    """Run the parts one after the other.  An exception raised *inside the library* (a frame of the traceback lies in the
+    package under test) is recorded as a failure of that part (`<part>:raises`, with the harness line that made the call) and
+    the run goes on; any other exception (driver, harness) is kept and re-raised after all parts have run."""
+    import os
+    import traceback
+    from ..common import DriverError
+    libdir = os.path.dirname(os.path.abspath(ut.__file__)) + os.sep
+    first = None
+    for name, fn in parts:
+        try:
+            fn()
+        except DriverError as e:
+            first = first or e
+            ctx.info(f"{kind} part '{name}' stopped: driver unusable ({str(e)[:120]})")
+        except Exception as e:
+            tb = traceback.extract_tb(e.__traceback__)
+            lib = [f for f in tb if os.path.abspath(f.filename).startswith(libdir)]
+            if lib:
+                here = [f for f in tb if f.filename == __file__]
+                call = here[-1].line if here else "?"
+                ctx.fail(kind, f"part:{name}:raises" if kind == "corr" else f"utils:{name}:raises",
+                         f"{kind} part '{name}': the library raised {type(e).__name__}: {str(e)[:200]} in {lib[-1].name} "
+                         f"(utils.py line {lib[-1].lineno}: `{lib[-1].line}`), called from `{call}`",
+                         witness={"part": name, "traceback": traceback.format_exc()[-2000:]})
+            else:
+                first = first or e
+                ctx.info(f"{kind} part '{name}' raised {type(e).__name__}: {str(e)[:200]} (harness side; re-raised after the other parts)")
+    if first is not None:
+        raise first
+
+
+_HELD_KINDS = {  # how the point array held by the object is built from the float64 values `V` (an (N, 3) list)
+    "float64": "np.array(V)",
+    "int64": "np.array(V, dtype=np.int64)",
+    "int32": "np.array(V, dtype=np.int32)",
+    "float32": "np.array(V, dtype=np.float32)",
+    "read-only": "_ro(np.array(V))",
+    "strided": "np.repeat(np.array(V), 2, axis=0)[::2]",
+    "negative-stride": "np.array(V[::-1])[::-1]",
+    "F-order": "np.asfortranarray(np.array(V))",
+    "column-slice-of-wider": "np.hstack([np.array(V), np.full((len(V), 2), 9.0)])[:, :3]",
+}
+
+SNIP_HELD = """import warnings; warnings.filterwarnings('ignore')
+import numpy as np
+from grid.basegrid import Grid
+from grid.utils import convert_cart_to_sph, solid_harmonics, generate_real_spherical_harmonics, generate_real_spherical_harmonics_scipy, generate_derivative_real_spherical_harmonics
+def _ro(a):
+    a.setflags(write=False); return a
+V = {V!r}; c = {c!r}; L = {L}
+g = Grid({build}, np.ones(len(V)))          # the object holds the array as it was given
+ref = Grid(np.array(V, dtype=float), np.ones(len(V)))
+def run(points):
+    sph = convert_cart_to_sph(points, {centre})
+    return [np.asarray(x, dtype=float) for x in (sph, solid_harmonics(L, sph), generate_real_spherical_harmonics(L, sph[:, 1], sph[:, 2]),
+            generate_real_spherical_harmonics_scipy(L, sph[:, 1], sph[:, 2]), generate_derivative_real_spherical_harmonics(L, sph[:, 1], sph[:, 2]))]
+for name, a, b in zip(('convert_cart_to_sph', 'solid_harmonics', 'harmonics', 'harmonics (SciPy)', 'derivatives'), run(g.points), run(ref.points)):
+    assert a.shape == b.shape and np.allclose(a, b, rtol=0, atol={tol!r} * max(1.0, float(np.max(np.abs(b)))), equal_nan=True), f'{{name}} from the points held by the grid ({kind}) differs from the float64 computation by {{float(np.max(np.abs(a - b)))!r}}'
+"""
+
+
+def _object_held_arrays(ctx: Ctx, ut, mp):
+    """Class 14: the point array *held by a grid object* (integer, float32, read-only, strided, negative stride, Fortran order,
+    a slice of a wider array; AngularGrid / AtomGrid points) handed to convert_cart_to_sph and on to solid_harmonics, both
+    harmonics routines and the derivative routine.  Reference: the same pipeline on a float64 C-contiguous copy (and that one
+    against the definition, round trip with 60 digits)."""
+    from grid.basegrid import Grid
+    rg = ctx.rng
+    L = 3
+    V = [[float(rg.randrange(-6, 7)), float(rg.randrange(-6, 7)), float(rg.randrange(-6, 7))] for _ in range(5)] + [[0.0, 0.0, 0.0], [1.0, -2.0, 3.0]]
+    cfrac = [rg.randrange(-12, 13) / 4.0 + 0.25, rg.randrange(-12, 13) / 4.0 + 0.125, rg.randrange(-12, 13) / 4.0 + 0.375]   # fractional: a cast to the integer dtype shows
+
+    def _ro(a):
+        a.setflags(write=False)
+        return a
+
+    def run(points, centre):
+        sph = ut.convert_cart_to_sph(points, centre)
+        return [np.asarray(x, dtype=float) for x in (sph, ut.solid_harmonics(L, sph), ut.generate_real_spherical_harmonics(L, sph[:, 1], sph[:, 2]),
+                                                     ut.generate_real_spherical_harmonics_scipy(L, sph[:, 1], sph[:, 2]),
+                                                     ut.generate_derivative_real_spherical_harmonics(L, sph[:, 1], sph[:, 2]))]
+    names = ("convert_cart_to_sph", "solid_harmonics", "generate_real_spherical_harmonics", "generate_real_spherical_harmonics_scipy",
+             "generate_derivative_real_spherical_harmonics")
+    centres = (("fractional-list", cfrac, repr(cfrac)), ("fractional-array", np.array(cfrac), "np.array(c)"), ("none", None, "None"),
+               ("integer-tuple", (1, -2, 3), "(1, -2, 3)"))
+    refs = {}
+    for cname, cobj, csrc in centres:
+        ref = refs[cname] = run(Grid(np.array(V, dtype=float), np.ones(len(V))).points, cobj)
+        # the float64 pipeline itself: round trip (60 digits) and the solid harmonics against the Cartesian definition
+        cc = [0.0, 0.0, 0.0] if cobj is None else [float(x) for x in cobj]
+        with mp.workdps(60):
+            for j, q in enumerate(V):
+                d3 = [mp.mpf(a) - mp.mpf(b) for a, b in zip(q, cc)]
+                r0 = mp.sqrt(sum(x * x for x in d3))
+                r, t, ph = (mp.mpf(float(x)) for x in ref[0][j])
+                back = [r * mp.cos(t) * mp.sin(ph), r * mp.sin(t) * mp.sin(ph), r * mp.cos(ph)]
+                ctx.count(["held", "reference", cname, q], nontrivial=True, tag="held-by-object:float64-reference")
+                if not max(abs(a - b) for a, b in zip(back, d3)) <= 1e-13 * r0:
+                    ctx.fail("oracle", "utils.convert_cart_to_sph:roundtrip", f"convert_cart_to_sph({q}, center={cc}) = {ref[0][j].tolist()} does not map back to the point",
+                             witness={"point": q, "center": cc, "sph": ref[0][j].tolist()})
+                for l, m in py_lm_order(L):
+                    want = float(_mp_solid_cart(mp, l, m, d3))
+                    if not abs(float(ref[1][row_index(l, m), j]) - want) <= 2e-12 * (L + 1) * max(float(r0) ** l, 1e-300):
+                        ctx.fail("oracle", "utils.solid_harmonics:cartesian", f"solid harmonic (l={l}, m={m}) of the point {q} about {cc}: "
+                                 f"{float(ref[1][row_index(l, m), j])!r}, definition on the Cartesian vector {want!r}", witness={"point": q, "center": cc, "l": l, "m": m})
+                        break
+        for kname, build in _HELD_KINDS.items():
+            g = Grid(eval(build, {"np": np, "V": V, "_ro": _ro}), np.ones(len(V)))
+            ctx.count(["held", kname, cname], nontrivial=kname != "float64", tag=f"held-by-object:{kname}")
+            single = kname == "float32"
+            try:
+                got = run(g.points, cobj)
+            except Exception as e:
+                ctx.fail("oracle", f"utils.convert_cart_to_sph:held-by-object:{kname}", f"the pipeline on the points held by Grid({build}) with centre {csrc} raised "
+                         f"{type(e).__name__}: {str(e)[:150]}", witness={"V": V, "center": cc, "kind": kname},
+                         snippet=SNIP_HELD.format(V=V, c=cfrac, L=L, build=build, centre=csrc, kind=kname, tol=1e-12))
+                continue
+            for name, a, b in zip(names, got, ref):
+                tol = 1e-12 * max(1.0, float(np.nanmax(np.abs(b))))
+                if a.shape != b.shape or not np.allclose(a, b, rtol=0, atol=tol, equal_nan=True):
+                    dd = float(np.nanmax(np.abs(a - b))) if a.shape == b.shape else float("inf")
+                    ctx.fail("oracle", f"utils.{name}:held-by-object:{kname}",
+                             f"{name} on the points held by Grid({build}) (values {V}) about the centre {csrc} = {cc} differs from the float64 computation by {dd!r}",
+                             witness={"V": V, "center": cc, "kind": kname, "centre_kind": cname, "routine": name},
+                             snippet=SNIP_HELD.format(V=V, c=cfrac, L=L, build=build, centre=csrc, kind=kname, tol=1e-12))
+                    break
+    # points held by the library's own grid classes
+    from grid.angular import AngularGrid
+    for obj, what in ((AngularGrid(degree=7), "AngularGrid(degree=7)"),):
+        pts = obj.points
+        ctx.count(["held", what], nontrivial=True, tag="held-by-object:AngularGrid")
+        before = pts.copy()
+        sph = np.asarray(ut.convert_cart_to_sph(pts, np.array(cfrac)), dtype=float)
+        sph2 = np.asarray(ut.convert_cart_to_sph(before.copy(), np.array(cfrac)), dtype=float)
+        if not np.array_equal(sph, sph2, equal_nan=True) or not np.array_equal(pts, before):
+            ctx.fail("oracle", "utils.convert_cart_to_sph:held-by-object:AngularGrid", f"convert_cart_to_sph({what}.points, {cfrac}) differs from the call on a copy of the points, "
+                     f"or modified the points of the grid", witness={"center": cfrac})
+
+
+SNIP_VIEW = """import warnings; warnings.filterwarnings('ignore')
+import numpy as np
+import grid.utils as u
+big = np.full(({n} + 4, 7), 777.0)
+S = big[2:-2, 2:5]            # (r, theta, phi) rows: a view into the caller's larger array
+S[...] = {vals!r}
+A, Ap = S[:, 1], S[:, 2]      # theta and phi: views of the same memory
+pristine = big.copy()
+rc, tc, pc = (np.ascontiguousarray(pristine[2:-2, k]) for k in (2, 3, 4))
+for _ in range(3):
+    got = np.asarray({call}, dtype=float)
+want = np.asarray({ref}, dtype=float)
+assert np.array_equal(big, pristine), 'the call wrote into the caller\\'s array: ' + repr(np.argwhere(big != pristine).tolist()[:5])
+assert got.shape == want.shape and np.allclose(got, want, rtol=0, atol={tol!r} * max(1.0, float(np.max(np.abs(want)))), equal_nan=True), f'the answer on the views differs from the answer on pristine copies by {{float(np.max(np.abs(got - want)))!r}}'
+"""
+
+
+def _shared_argument_views(ctx: Ctx, ut):
+    """Class 16: one argument object for several requests.  (r, theta, phi) live in a view into a larger caller array (guard
+    cells all around); theta and phi are views of the same memory, passed two and three times to the same routine and to the
+    other routines, the same array for both parameters, a row of the points as the centre.  Every answer against the answer on
+    pristine contiguous copies; the whole larger array unchanged afterwards."""
+    rg = ctx.rng
+    f32 = lambda x: float(np.float32(x))
+    n, L = 5, 3
+    vals = [[f32(rg.uniform(0.3, 2.0)), f32(rg.uniform(-7, 7)), f32(rg.uniform(-3, 6))] for _ in range(n)]
+    big = np.full((n + 4, 7), 777.0)
+    S = big[2:-2, 2:5]
+    S[...] = vals
+    A, Ap = S[:, 1], S[:, 2]
+    pristine = big.copy()
+    rc, tc, pc = (np.ascontiguousarray(pristine[2:-2, k]) for k in (2, 3, 4))
+    Sc = np.ascontiguousarray(pristine[2:-2, 2:5])
+    ns = {"np": np, "u": ut, "S": S, "A": A, "Ap": Ap, "rc": rc, "tc": tc, "pc": pc, "Sc": Sc, "big": big}
+    reqs = [("generate_real_spherical_harmonics", f"u.generate_real_spherical_harmonics({L}, A, Ap)", f"u.generate_real_spherical_harmonics({L}, tc, pc)"),
+            ("generate_real_spherical_harmonics", f"u.generate_real_spherical_harmonics({L}, A, A)", f"u.generate_real_spherical_harmonics({L}, tc, tc)"),
+            ("generate_real_spherical_harmonics_scipy", f"u.generate_real_spherical_harmonics_scipy({L}, A, Ap)", f"u.generate_real_spherical_harmonics_scipy({L}, tc, pc)"),
+            ("generate_real_spherical_harmonics_scipy", f"u.generate_real_spherical_harmonics_scipy({L}, Ap, Ap)", f"u.generate_real_spherical_harmonics_scipy({L}, pc, pc)"),
+            ("generate_derivative_real_spherical_harmonics", f"u.generate_derivative_real_spherical_harmonics({L}, A, Ap)", f"u.generate_derivative_real_spherical_harmonics({L}, tc, pc)"),
+            ("solid_harmonics", f"u.solid_harmonics({L}, S)", f"u.solid_harmonics({L}, np.stack([rc, tc, pc], axis=1))"),
+            ("convert_cart_to_sph", "u.convert_cart_to_sph(S, S[1])", "u.convert_cart_to_sph(np.stack([rc, tc, pc], axis=1), np.array([rc[1], tc[1], pc[1]]))"),
+            ("convert_cart_to_sph", "u.convert_cart_to_sph(S, S[0])", "u.convert_cart_to_sph(np.stack([rc, tc, pc], axis=1), np.array([rc[0], tc[0], pc[0]]))"),
+            ("convert_cart_to_sph", "u.convert_cart_to_sph(S)", "u.convert_cart_to_sph(np.stack([rc, tc, pc], axis=1))")]
+    for rnd in range(2):   # every request twice, in the second round in reversed order (the earlier requests are the history)
+        for name, call, ref in (reqs if rnd == 0 else reqs[::-1]):
+            ctx.count(["shared-view", rnd, call], nontrivial=True, tag=f"shared-view:{name}")
+            key = f"utils.{name}:shared-view"
+            snip = SNIP_VIEW.format(n=n, vals=vals, call=call, ref=ref, tol=1e-12)
+            try:
+                outs = [np.asarray(eval(call, ns), dtype=float) for _ in range(3)]
+                want = np.asarray(eval(ref, ns), dtype=float)
+            except Exception as e:
+                ctx.fail("oracle", key, f"`{call}` on views into a larger array raised {type(e).__name__}: {str(e)[:150]}", witness={"vals": vals, "call": call}, snippet=snip)
+                continue
+            if not np.array_equal(big, pristine):
+                where = np.argwhere(big != pristine).tolist()[:5]
+                ctx.fail("oracle", f"utils.{name}:input-modified", f"`{call}` wrote into the caller's larger array (S = big[2:-2, 2:5]) at {where}: "
+                         f"{[float(big[tuple(w)]) for w in where]} instead of {[float(pristine[tuple(w)]) for w in where]}", witness={"vals": vals, "call": call, "where": where}, snippet=snip)
+                big[...] = pristine
+            tol = 1e-12 * max(1.0, float(np.nanmax(np.abs(want))) if want.size else 1.0)
+            if outs[0].shape != want.shape or not np.allclose(outs[0], want, rtol=0, atol=tol, equal_nan=True):
+                ctx.fail("oracle", key, f"`{call}` (arguments: views into a larger array, (r, theta, phi) = {vals}) differs from `{ref}` on pristine contiguous copies by "
+                         f"{float(np.nanmax(np.abs(outs[0] - want))) if outs[0].shape == want.shape else 'shape ' + str(outs[0].shape)!r}", witness={"vals": vals, "call": call}, snippet=snip)
+            elif not all(np.array_equal(outs[0], o, equal_nan=True) for o in outs[1:]):
+                ctx.fail("oracle", key, f"`{call}` repeated three times on the same argument objects does not return the same answer", witness={"vals": vals, "call": call}, snippet=snip)
+
+
+_VALUE_KINDS = {  # value kinds of the three derivative data (the routine is linear in them)
+    "complex128": "np.complex128({z})", "complex64": "np.complex64({z})", "python-complex": "complex({z})", "longdouble": "np.longdouble({x})",
+    "float32": "np.float32({x})", "int": "int({i})", "np.int32": "np.int32({i})", "bool": "bool({b})", "0-d-complex": "np.array({z})", "0-d-float": "np.array({x})",
+}
+
+SNIP_KIND = """import numpy as np
+from grid.utils import convert_derivative_from_spherical_to_cartesian as f
+r, t, p = {r!r}, {t!r}, {p!r}
+d = [{d0}, {d1}, {d2}]                     # the three derivative data, kinds {kinds}
+got = np.asarray(f(d[0], d[1], d[2], r, t, p))
+re = np.asarray(f(*[float(np.real(x)) for x in d], r, t, p), dtype=float)     # the routine is linear in the data
+im = np.asarray(f(*[float(np.imag(x)) for x in d], r, t, p), dtype=float)
+assert got.shape == (3,) and np.allclose(np.real(got).astype(float), re, rtol=0, atol={tol!r}) and np.allclose(np.imag(got).astype(float), im, rtol=0, atol={tol!r}), f'{{got.tolist()}} instead of {{(re + 1j * im).tolist()}}'
+"""
+
+
+def _value_kinds_conv_deriv(ctx: Ctx, ut):
+    """Class 17: convert_derivative_from_spherical_to_cartesian is linear in (deriv_r, deriv_theta, deriv_phi): complex128 /
+    complex64 / Python complex / longdouble / float32 / integer / bool / 0-d data, the same kind for all three and mixed kinds,
+    against real and imaginary part computed separately with Python floats."""
+    rg = ctx.rng
+    f = ut.convert_derivative_from_spherical_to_cartesian
+    kinds = list(_VALUE_KINDS)
+    combos = [(k, k, k) for k in kinds] + [tuple(rg.choice(kinds) for _ in range(3)) for _ in range(6)]
+    for ks in combos:
+        r, t, p = rg.choice([rg.uniform(0.2, 3), 0.0, 5e-11]), rg.uniform(-7, 7), rg.choice([rg.uniform(0.1, 3.0), -rg.uniform(0.1, 3.0), 0.0])
+        srcs = []
+        for k in ks:
+            x, y = float(np.float32(rg.uniform(-2, 2))), float(np.float32(rg.uniform(-2, 2)))
+            srcs.append(_VALUE_KINDS[k].format(z=repr(complex(x, y)), x=repr(x), i=rg.randrange(-3, 4), b=rg.choice([True, False])))
+        d = [eval(sx, {"np": np}) for sx in srcs]
+        ctx.count(["value-kind", ks, r, t, p], nontrivial=True, tag="value-kind:" + (ks[0] if len(set(ks)) == 1 else "mixed"))
+        key = "utils.convert_derivative_from_spherical_to_cartesian:value-kind:" + (ks[0] if len(set(ks)) == 1 else "mixed")
+        snip = SNIP_KIND.format(r=r, t=t, p=p, d0=srcs[0], d1=srcs[1], d2=srcs[2], kinds=ks, tol=1e-6 if any(k in ("float32", "complex64") for k in ks) else 1e-12)
+        tol = 1e-6 if any(k in ("float32", "complex64") for k in ks) else 1e-12
+        try:
+            got = np.asarray(f(d[0], d[1], d[2], r, t, p))
+            re = np.asarray(f(*[float(np.real(x)) for x in d], r, t, p), dtype=float)
+            im = np.asarray(f(*[float(np.imag(x)) for x in d], r, t, p), dtype=float)
+        except Exception as e:
+            ctx.fail("oracle", key, f"convert_derivative_from_spherical_to_cartesian({', '.join(srcs)}, r={r!r}, theta={t!r}, phi={p!r}) raised {type(e).__name__}: {str(e)[:150]}",
+                     witness={"data": srcs, "r": r, "theta": t, "phi": p}, snippet=snip)
+            continue
+        ok = got.shape == (3,) and np.allclose(np.real(got).astype(float), re, rtol=0, atol=tol * max(1.0, float(np.max(np.abs(re))))) \
+            and np.allclose(np.imag(got).astype(float), im, rtol=0, atol=tol * max(1.0, float(np.max(np.abs(im)))))
+        if not ok:
+            ctx.fail("oracle", key, f"convert_derivative_from_spherical_to_cartesian({', '.join(srcs)}, r={r!r}, theta={t!r}, phi={p!r}) = {got.tolist()}, "
+                     f"real / imaginary part computed separately {(re + 1j * im).tolist()}", witness={"data": srcs, "r": r, "theta": t, "phi": p}, snippet=snip)
+
+
+_ACCEPTED = [("generate_real_spherical_harmonics", "u.generate_real_spherical_harmonics(3, A, Ap)"),
+             ("generate_real_spherical_harmonics_scipy", "u.generate_real_spherical_harmonics_scipy(3, A, Ap)"),
+             ("generate_derivative_real_spherical_harmonics", "u.generate_derivative_real_spherical_harmonics(3, A, Ap)"),
+             ("solid_harmonics", "u.solid_harmonics(3, S)"),
+             ("convert_cart_to_sph", "u.convert_cart_to_sph(S, c)"),
+             ("convert_derivative_from_spherical_to_cartesian", "u.convert_derivative_from_spherical_to_cartesian(1.0, -2.0, 0.5, 1.5, A[0], Ap[0])")]
+_REJECTED = ["u.generate_real_spherical_harmonics(-1, A, Ap)", "u.generate_real_spherical_harmonics_scipy(-1, A, Ap)",
+             "u.generate_real_spherical_harmonics(3, A, Ap[:2])", "u.generate_real_spherical_harmonics_scipy(3, A, Ap[:2])",
+             "u.generate_real_spherical_harmonics_scipy(3, A.reshape(1, -1), Ap.reshape(1, -1))", "u.generate_real_spherical_harmonics(3, None, None)",
+             "u.generate_real_spherical_harmonics(3, A, 'x')", "u.generate_real_spherical_harmonics_scipy('3', A, Ap)",
+             "u.generate_derivative_real_spherical_harmonics(-2, A, Ap)", "u.generate_derivative_real_spherical_harmonics(3, A, Ap[:2])",
+             "u.generate_derivative_real_spherical_harmonics(3, A, None)", "u.generate_derivative_real_spherical_harmonics(2.5, A, Ap)",
+             "u.solid_harmonics(3, S[:, :2])", "u.solid_harmonics(-1, S)", "u.solid_harmonics(3, S[0])", "u.solid_harmonics(3, None)",
+             "u.convert_cart_to_sph(S[0], c)", "u.convert_cart_to_sph(S, c[:2])", "u.convert_cart_to_sph(S[:, :2], c)", "u.convert_cart_to_sph(S, 'abc')",
+             "u.convert_cart_to_sph(None)", "u.convert_cart_to_sph(S.reshape(-1, 3, 1))",
+             "u.convert_derivative_from_spherical_to_cartesian(1.0, 2.0, 3.0, 'a', 0.0, 0.0)", "u.convert_derivative_from_spherical_to_cartesian(1.0, 2.0, None, 1.0, 0.0, 0.0)",
+             "u.convert_derivative_from_spherical_to_cartesian(1.0, 2.0)"]
+
+SNIP_TRACE = """import warnings; warnings.filterwarnings('ignore')
+import numpy as np
+import grid.utils as u
+A = np.array({t!r}); Ap = np.array({p!r}); S = np.array({S!r}); c = np.array({c!r})
+first = np.array({call}, dtype=float)
+keep = [x.copy() for x in (A, Ap, S, c)]
+for bad in {rejected!r}:
+    try:
+        eval(bad)
+    except Exception:
+        pass
+assert all(np.array_equal(x, y) for x, y in zip((A, Ap, S, c), keep)), 'a call that raised modified its arguments'
+again = np.array({call}, dtype=float)
+assert np.array_equal(first, again, equal_nan=True), 'after calls that ended in an exception `{call}` returns another answer: largest difference ' + repr(float(np.nanmax(np.abs(first - again))))
+"""
+
+
+SNIP_TRACE_FRESH = """import subprocess, sys
+# run in a fresh interpreter: the calls that end in an exception come first
+code = '''import warnings; warnings.filterwarnings('ignore')
+import numpy as np
+import grid.utils as u
+A = np.array({t!r}); Ap = np.array({p!r}); S = np.array({S!r}); c = np.array({c!r})
+if RAISE_FIRST:
+    for bad in {rejected!r}:
+        try:
+            eval(bad)
+        except Exception:
+            pass
+print(np.array({call}, dtype=float).tobytes().hex())
+'''
+a, b = (subprocess.run([sys.executable, '-c', code.replace('RAISE_FIRST', flag)], capture_output=True, text=True).stdout for flag in ('False', 'True'))
+assert a and a == b, 'the answer of `{call}` depends on whether calls that ended in an exception were made before it'
+"""
+
+
+def _rejected_calls_leave_no_trace(ctx: Ctx, ut):
+    """Class 18: after public calls that end in an exception (negative / non-integer / string l_max, mismatched lengths, wrong
+    rank, None, a centre of the wrong length, too few arguments) every accepted call returns bit for bit what it returned before
+    and what a fresh process returns; the arguments of the rejected calls are unchanged."""
+    import hashlib
+    import subprocess
+    import sys
+    rg = ctx.rng
+    f32 = lambda x: float(np.float32(x))
+    t = [f32(rg.uniform(0.2, 2.9)), -f32(rg.uniform(3.4, 6.0)), f32(rg.uniform(6.5, 9.2)), 0.0]
+    p = [f32(rg.uniform(0.2, 2.9)), -f32(rg.uniform(0.2, 2.9)), f32(rg.uniform(3.4, 6.0)), 0.0]
+    Sv = [[f32(rg.uniform(0.3, 2.0)), a, b] for a, b in zip(t, p)]
+    c = [0.5, -1.25, 2.0]
+    setup = f"A = np.array({t!r}); Ap = np.array({p!r}); S = np.array({Sv!r}); c = np.array({c!r})"
+    ns = {"np": np, "u": ut}
+    exec(setup, ns)
+    first = {call: np.array(eval(call, ns), dtype=float) for _, call in _ACCEPTED}
+    keep = {k: ns[k].copy() for k in ("A", "Ap", "S", "c")}
+    for rnd in range(2):
+        for bad in (_REJECTED if rnd == 0 else rg.sample(_REJECTED, len(_REJECTED))):
+            ctx.count(["rejected", rnd, bad], nontrivial=True, tag="rejected-call")
+            try:
+                eval(bad, ns)
+                ctx.tagc("rejected-call:accepted(" + bad.split("(")[0][2:] + ")")
+            except Exception as e:
+                ctx.tagc(f"rejected-call:{type(e).__name__}")
+            for k, v in keep.items():
+                if not np.array_equal(ns[k], v):
+                    ctx.fail("oracle", "utils:rejected-call:input-modified", f"`{bad}` (a call that ends in an exception) modified its argument {k}: {v.tolist()} -> {ns[k].tolist()}",
+                             witness={"call": bad, "argument": k}, snippet=SNIP_TRACE.format(t=t, p=p, S=Sv, c=c, call=_ACCEPTED[0][1], rejected=[bad]))
+                    ns[k][...] = v
+        for name, call in _ACCEPTED:
+            ctx.count(["after-rejected", rnd, call], nontrivial=True, tag=f"after-rejected-calls:{name}")
+            again = np.array(eval(call, ns), dtype=float)
+            if not np.array_equal(first[call], again, equal_nan=True):
+                ctx.fail("oracle", f"utils.{name}:after-rejected-calls", f"after {len(_REJECTED)} calls that ended in an exception `{call}` returns another answer than before "
+                         f"(largest difference {_maxdiff(first[call], again)[0]!r})", witness={"call": call, "setup": setup},
+                         snippet=SNIP_TRACE.format(t=t, p=p, S=Sv, c=c, call=call, rejected=_REJECTED))
+    # two fresh processes: one makes the accepted calls only, the other one makes every rejected call *first* (so that a call that
+    # raised is the first one to touch whatever the routine keeps per l_max / per shape) and then the accepted calls
+    head = "import warnings; warnings.filterwarnings('ignore')\nimport numpy as np, hashlib\nimport grid.utils as u\nprint(u.__file__)\n" + setup + "\n"
+    prints = "\n".join(f"print(hashlib.sha256(np.array({call}, dtype=float).tobytes()).hexdigest())" for _, call in _ACCEPTED)
+    raising = f"for bad in {_REJECTED!r}:\n    try:\n        eval(bad)\n    except Exception:\n        pass\n"
+    env = dict(__import__("os").environ, PYTHONPATH=":".join(sys.path))
+    try:
+        procs = [subprocess.Popen([sys.executable, "-c", head + mid + prints], stdout=subprocess.PIPE, stderr=subprocess.PIPE, text=True, env=env) for mid in ("", raising)]
+        outs = [pr.communicate(timeout=300)[0].split() for pr in procs]
+    except Exception as e:
+        outs = [[], []]
+        ctx.info(f"fresh-process comparison not run: {type(e).__name__}: {e}")
+    real = __import__("os").path.realpath
+    if all(len(o) == len(_ACCEPTED) + 1 and real(o[0]) == real(ut.__file__) for o in outs):
+        here = [hashlib.sha256(np.array(eval(call, ns), dtype=float).tobytes()).hexdigest() for _, call in _ACCEPTED]
+        for k, (name, call) in enumerate(_ACCEPTED):
+            ctx.count(["fresh-process", call], nontrivial=True, tag="after-rejected-calls:fresh-process")
+            if outs[1][k + 1] != outs[0][k + 1]:
+                ctx.fail("oracle", f"utils.{name}:after-rejected-calls", f"in a fresh process `{call}` returns another answer when the {len(_REJECTED)} calls that end in an "
+                         f"exception were made first than when they were not", witness={"call": call, "setup": setup},
+                         snippet=SNIP_TRACE_FRESH.format(t=t, p=p, S=Sv, c=c, call=call, rejected=_REJECTED))
+            elif here[k] != outs[0][k + 1]:
+                ctx.fail("oracle", f"utils.{name}:after-rejected-calls", f"`{call}` in this process (after calls that ended in an exception) differs bit-wise from the same call in a fresh process",
+                         witness={"call": call, "setup": setup}, snippet=SNIP_TRACE.format(t=t, p=p, S=Sv, c=c, call=call, rejected=_REJECTED))
+    else:
+        ctx.info(f"fresh-process comparison not evaluated: the subprocesses answered {[len(o) for o in outs]} lines ({[o[:1] for o in outs]})")
+
+
+def _extreme_pipeline(ctx: Ctx, ut, kind, mp=None):
+    """Class 19: where the consumed layer is extreme.  convert_cart_to_sph -> solid_harmonics at radii 1e-150 .. 1e150 about a
+    centre of the same magnitude, with l_max such that r^l stays inside [1e-300, 1e300] (the envelope of a float64 result; measured
+    on the pinned tree: accurate to 1e-13 relative to r^l there)."""
+    rg = ctx.rng
+    for s, L in ((1e-150, 1), (1e-100, 2), (1e-30, 9), (1e-12, 12), (1e12, 12), (1e30, 9), (1e100, 2), (1e150, 1), (10 ** rg.uniform(-20, 20), 6)):
+        c0 = [rg.uniform(-2, 2) for _ in range(3)]
+        ds = [[rg.uniform(-2, 2) for _ in range(3)], [0.0, 0.0, rg.uniform(0.5, 2)], [rg.uniform(0.5, 2), 0.0, 0.0], [0.0, 0.0, 0.0]]
+        c = [x * s for x in c0]
+        pts = [[(a + b) * s for a, b in zip(c0, d)] if any(d) else list(c) for d in ds]
+        sph = np.asarray(ut.convert_cart_to_sph(np.array(pts), np.array(c)), dtype=float)
+        S = np.asarray(ut.solid_harmonics(L, sph), dtype=float)
+        lms = py_lm_order(L)
+        if kind == "corr":
+            a1 = driver_batch(["C08.cartToSph " + " ".join(f2b(x) for x in list(q) + list(c)) for q in pts])
+            a2 = driver_batch([f"C08.solid {L} {f2b(r)} {f2b(t)} {f2b(ph)}" for r, t, ph in sph])
+        for j, q in enumerate(pts):
+            r, t, ph = (float(v) for v in sph[j])
+            ctx.count([kind, "extreme", s, L, q], nontrivial=True, tag="extreme-pipeline")
+            with np.errstate(over="ignore", under="ignore"):
+                scale = np.array([max(r ** l, 5e-324) for l, _ in lms])
+            if kind == "corr":
+                T = Tokens(a1[j][3:]) if a1[j].startswith("ok ") else None
+                m1 = [T.flt(), T.flt(), T.flt()] if T else None
+                if m1 is None or not all(close(x, y, rtol=1e-13, atol=1e-15, scale=max(1.0, abs(y))) for x, y in zip(m1[1:], (t, ph))) or not close(m1[0], r, rtol=1e-13):
+                    ctx.fail("corr", "extreme:cartToSph", f"convert_cart_to_sph({q}, center={c}) = {[r, t, ph]}, model {m1}",
+                             witness={"routine": "c2s", "point": q, "center": c, "impl": [r, t, ph], "model": m1})
+                rows = _rows(a2[j])
+                err = np.abs(S[:, j] - rows) / scale if rows is not None and len(rows) == len(lms) else np.array([np.inf])
+                err[np.isnan(err)] = np.inf
+                if not np.max(err) <= 1e-12 * (L + 1):
+                    i = int(np.argmax(err))
+                    ctx.fail("corr", "extreme:solid", f"solid_harmonics({L}, convert_cart_to_sph({q}, {c})) row {i}: implementation {float(S[i, j])!r}, model "
+                             f"{float(rows[i]) if rows is not None and i < len(rows) else None!r} (r^l = {float(scale[i]) if i < len(scale) else None!r})",
+                             witness={"routine": "solid", "l_max": L, "r": r, "theta": t, "phi": ph, "row": i, "point": q, "center": c})
+                continue
+            with mp.workdps(60):
+                d3 = [mp.mpf(a) - mp.mpf(b) for a, b in zip(q, c)]
+                r0 = mp.sqrt(sum(x * x for x in d3))
+                if not abs(mp.mpf(r) - r0) <= 1e-13 * r0:
+                    ctx.fail("oracle", "utils.convert_cart_to_sph:extreme", f"convert_cart_to_sph({q}, center={c}): r = {r!r}, true distance {float(r0)!r}",
+                             witness={"point": q, "center": c, "sph": [r, t, ph]},
+                             snippet=SNIP_C2S.format(pre=f"P = np.array([{q!r}])\nc = np.array({c!r})", call="fn(P, c)", j=0, q=q, c=c, tol=1e-12, atol=0.0, slack=0.0, rtol=1e-13))
+                    continue
+                for i, (l, m) in enumerate(lms):
+                    want = float(_mp_solid_cart(mp, l, m, d3))
+                    tol = 1e-11 * (L + 1) * max(float(r0 ** l), 5e-324)
+                    if not abs(float(S[i, j]) - want) <= tol:
+                        ctx.fail("oracle", "utils.solid_harmonics:extreme", f"solid harmonic (l={l}, m={m}) of the point {q} about the centre {c} (scale {s:g}): "
+                                 f"solid_harmonics(convert_cart_to_sph(...)) = {float(S[i, j])!r}, definition on the Cartesian vector (60 digits) {want!r}",
+                                 witness={"point": q, "center": c, "l": l, "m": m, "got": float(S[i, j]), "want": want},
+                                 snippet=SNIP_PIPE.format(q=q, c=c, L=L, l=l, m=m, row=i, tol=tol))
+                        break
+
+
 # --------------------------------------------------------------------------------------
 # correspondence
 # --------------------------------------------------------------------------------------
@@ -1360,280 +1861,297 @@ def corr(ctx: Ctx):
     th = np.array([a[0] for a in angs])
     ph = np.array([a[1] for a in angs])
 
-    # -- row order ------------------------------------------------------------------------
-    for L in (0, 1, 2, 3, 7, 20):
-        ans = driver_batch([f"C08.lmOrder {L}"])[0]
-        want = "ok " + " ".join([str((L + 1) ** 2)] + [f"{l} {m}" for l, m in py_lm_order(L)])
-        ctx.count(["lmOrder", L], nontrivial=L >= 2, tag="lmOrder")
-        if ans != want:
-            ctx.fail("corr", "lmOrder", f"row order for l_max={L}: model {ans[:80]}, Horton-2 order {want[:80]}")
-        lines = [f"C08.rowIndex {l} {m}" for l, m in py_lm_order(L)]
-        for i, ((l, m), a) in enumerate(zip(py_lm_order(L), driver_batch(lines))):
-            if a != f"ok {i}" or row_index(l, m) != i:
-                ctx.fail("corr", "rowIndex", f"rowIndex({l},{m}) = {a}, position in the Horton-2 order {i}")
-    ctx.count(["rowIndex", "out-of-range"], nontrivial=False, tag="rowIndex")
-    if driver_batch(["C08.rowIndex 2 3"])[0] != "index-error":
-        ctx.fail("corr", "rowIndex", "rowIndex(2,3) not rejected by the driver")
+    def _p_row_order():
+        # -- row order ------------------------------------------------------------------------
+        for L in (0, 1, 2, 3, 7, 20):
+            ans = driver_batch([f"C08.lmOrder {L}"])[0]
+            want = "ok " + " ".join([str((L + 1) ** 2)] + [f"{l} {m}" for l, m in py_lm_order(L)])
+            ctx.count(["lmOrder", L], nontrivial=L >= 2, tag="lmOrder")
+            if ans != want:
+                ctx.fail("corr", "lmOrder", f"row order for l_max={L}: model {ans[:80]}, Horton-2 order {want[:80]}")
+            lines = [f"C08.rowIndex {l} {m}" for l, m in py_lm_order(L)]
+            for i, ((l, m), a) in enumerate(zip(py_lm_order(L), driver_batch(lines))):
+                if a != f"ok {i}" or row_index(l, m) != i:
+                    ctx.fail("corr", "rowIndex", f"rowIndex({l},{m}) = {a}, position in the Horton-2 order {i}")
+        ctx.count(["rowIndex", "out-of-range"], nontrivial=False, tag="rowIndex")
+        if driver_batch(["C08.rowIndex 2 3"])[0] != "index-error":
+            ctx.fail("corr", "rowIndex", "rowIndex(2,3) not rejected by the driver")
 
-    # -- harmonics: both implementations vs ylmCode and ylmNorm ---------------------------
-    for L in lmax_set(ctx):
-        ref = np.asarray(ut.generate_real_spherical_harmonics(L, th, ph), dtype=float)
-        ref2 = np.asarray(ut.generate_real_spherical_harmonics_scipy(L, th, ph), dtype=float)
-        code = driver_batch([f"C08.ylmCode {L} {f2b(t)} {f2b(p)}" for t, p in zip(th, ph)])
-        norm = driver_batch([f"C08.ylmNorm {L} {f2b(t)} {f2b(p)}" for t, p in zip(th, ph)])
-        for j, (t, p, tag) in enumerate(angs):
-            tol = 1e-13 * (L + 1) * (1.0 + abs(t)) + 1e-14
-            for name, model in (("ylmCode", code[j]), ("ylmNorm", norm[j])):
-                rows = _rows(model)
-                for impl_name, impl in (("recursion", ref[:, j]), ("scipy", ref2[:, j])):
-                    ctx.count([name, impl_name, L, t, p], nontrivial=L >= 2, tag=f"{name}:{impl_name}:{tag}")
-                    if rows is None or len(rows) != (L + 1) ** 2:
-                        ctx.fail("corr", f"{name}:shape", f"{name}({L}) answered {model[:60]}")
-                        continue
-                    d, i = _maxdiff(rows, impl)
-                    if d > tol:
-                        l, m = py_lm_order(L)[i]
-                        fn = "generate_real_spherical_harmonics" + ("_scipy" if impl_name == "scipy" else "")
-                        ctx.fail("corr", f"{name}:{impl_name}",
-                                 f"{fn}(l_max={L}, theta={t!r}, phi={p!r}) row {i} (l={l}, m={m}): implementation "
-                                 f"{impl[i]!r}, model {name} {rows[i]!r}",
-                                 witness={"routine": impl_name, "l_max": L, "theta": t, "phi": p, "row": i, "l": l, "m": m,
-                                          "impl": float(impl[i]), "model": float(rows[i]), "angle_class": tag})
+    def _p_harmonics():
+        # -- harmonics: both implementations vs ylmCode and ylmNorm ---------------------------
+        for L in lmax_set(ctx):
+            ref = np.asarray(ut.generate_real_spherical_harmonics(L, th, ph), dtype=float)
+            ref2 = np.asarray(ut.generate_real_spherical_harmonics_scipy(L, th, ph), dtype=float)
+            code = driver_batch([f"C08.ylmCode {L} {f2b(t)} {f2b(p)}" for t, p in zip(th, ph)])
+            norm = driver_batch([f"C08.ylmNorm {L} {f2b(t)} {f2b(p)}" for t, p in zip(th, ph)])
+            for j, (t, p, tag) in enumerate(angs):
+                tol = 1e-13 * (L + 1) * (1.0 + abs(t)) + 1e-14
+                for name, model in (("ylmCode", code[j]), ("ylmNorm", norm[j])):
+                    rows = _rows(model)
+                    for impl_name, impl in (("recursion", ref[:, j]), ("scipy", ref2[:, j])):
+                        ctx.count([name, impl_name, L, t, p], nontrivial=L >= 2, tag=f"{name}:{impl_name}:{tag}")
+                        if rows is None or len(rows) != (L + 1) ** 2:
+                            ctx.fail("corr", f"{name}:shape", f"{name}({L}) answered {model[:60]}")
+                            continue
+                        d, i = _maxdiff(rows, impl)
+                        if d > tol:
+                            l, m = py_lm_order(L)[i]
+                            fn = "generate_real_spherical_harmonics" + ("_scipy" if impl_name == "scipy" else "")
+                            ctx.fail("corr", f"{name}:{impl_name}",
+                                     f"{fn}(l_max={L}, theta={t!r}, phi={p!r}) row {i} (l={l}, m={m}): implementation "
+                                     f"{impl[i]!r}, model {name} {rows[i]!r}",
+                                     witness={"routine": impl_name, "l_max": L, "theta": t, "phi": p, "row": i, "l": l, "m": m,
+                                              "impl": float(impl[i]), "model": float(rows[i]), "angle_class": tag})
 
-    # -- high degrees: the recursion is documented to work up to the largest shipped angular degree
-    # (325; it runs in extended precision because sqrt((2l)!) overflows a double beyond l = 150).
-    # The code-shaped model overflows at Float there, so only the normalised model is compared.
-    hi_ls = [151, 160, 230, 325] if ctx.thorough else [151 + ctx.rng.randrange(0, 30), ctx.rng.choice([200, 260, 325])]
-    hi_angs = [(0.3, PI / 2, "equator"), (2.1, PI / 2 - 0.2, "near-equator"), (1.0, 1.0, "principal"),
-               (4.0, 2.6, "principal"), (-2.5, -1.2, "any"), (7.0, PI + 0.9, "any"), (0.7, 1e-3, "near-pole")]
-    hth = np.array([a[0] for a in hi_angs])
-    hph = np.array([a[1] for a in hi_angs])
-    for L in hi_ls:
-        ref = np.asarray(ut.generate_real_spherical_harmonics(L, hth, hph), dtype=float)
-        norm = driver_batch([f"C08.ylmNorm {L} {f2b(t)} {f2b(p)}" for t, p in hi_angs_tp(hi_angs)])
-        for j, (t, p, tag) in enumerate(hi_angs):
-            rows = _rows(norm[j])
-            ctx.count(["ylmNorm", "recursion-high-degree", L, t, p], nontrivial=True, tag=f"ylmNorm:recursion:high-degree:{tag}")
-            if rows is None or len(rows) != (L + 1) ** 2:
-                ctx.fail("corr", "ylmNorm:shape", f"ylmNorm({L}) answered {norm[j][:60]}")
-                continue
-            d, i = _maxdiff(rows, ref[:, j])
-            if not (d <= 2e-11 * (L + 1)):
-                l, m = py_lm_order(L)[i]
-                ctx.fail("corr", "ylmNorm:recursion:high-degree",
-                         f"generate_real_spherical_harmonics(l_max={L}, theta={t!r}, phi={p!r}) row {i} (l={l}, m={m}): implementation "
-                         f"{ref[i, j]!r}, model ylmNorm {rows[i]!r}",
-                         witness={"routine": "recursion", "l_max": L, "theta": t, "phi": p, "row": i, "l": l, "m": m,
-                                  "impl": float(ref[i, j]), "model": float(rows[i]), "angle_class": tag})
+    def _p_high_degree_recursion():
+        # -- high degrees: the recursion is documented to work up to the largest shipped angular degree
+        # (325; it runs in extended precision because sqrt((2l)!) overflows a double beyond l = 150).
+        # The code-shaped model overflows at Float there, so only the normalised model is compared.
+        hi_ls = [151, 160, 230, 325] if ctx.thorough else [151 + ctx.rng.randrange(0, 30), ctx.rng.choice([200, 260, 325])]
+        hi_angs = [(0.3, PI / 2, "equator"), (2.1, PI / 2 - 0.2, "near-equator"), (1.0, 1.0, "principal"),
+                   (4.0, 2.6, "principal"), (-2.5, -1.2, "any"), (7.0, PI + 0.9, "any"), (0.7, 1e-3, "near-pole")]
+        hth = np.array([a[0] for a in hi_angs])
+        hph = np.array([a[1] for a in hi_angs])
+        for L in hi_ls:
+            ref = np.asarray(ut.generate_real_spherical_harmonics(L, hth, hph), dtype=float)
+            norm = driver_batch([f"C08.ylmNorm {L} {f2b(t)} {f2b(p)}" for t, p in hi_angs_tp(hi_angs)])
+            for j, (t, p, tag) in enumerate(hi_angs):
+                rows = _rows(norm[j])
+                ctx.count(["ylmNorm", "recursion-high-degree", L, t, p], nontrivial=True, tag=f"ylmNorm:recursion:high-degree:{tag}")
+                if rows is None or len(rows) != (L + 1) ** 2:
+                    ctx.fail("corr", "ylmNorm:shape", f"ylmNorm({L}) answered {norm[j][:60]}")
+                    continue
+                d, i = _maxdiff(rows, ref[:, j])
+                if not (d <= 2e-11 * (L + 1)):
+                    l, m = py_lm_order(L)[i]
+                    ctx.fail("corr", "ylmNorm:recursion:high-degree",
+                             f"generate_real_spherical_harmonics(l_max={L}, theta={t!r}, phi={p!r}) row {i} (l={l}, m={m}): implementation "
+                             f"{ref[i, j]!r}, model ylmNorm {rows[i]!r}",
+                             witness={"routine": "recursion", "l_max": L, "theta": t, "phi": p, "row": i, "l": l, "m": m,
+                                      "impl": float(ref[i, j]), "model": float(rows[i]), "angle_class": tag})
 
-    # -- derivative routine -----------------------------------------------------------------
-    dangs = angs + [(ctx.rng.uniform(0, 6), x, "cot-threshold") for x in (5e-11, 9.9e-11, 1.01e-10, 2e-10, PI - 5e-11, PI + 2e-10)]
-    # exactly at / one ulp around |tan(phi)| = 1e-10, negative polar angles on both sides of it, next to 2 pi
-    dangs += [(ctx.rng.uniform(0, 6), x, "cot-threshold") for x in (1e-10, -1e-10, math.nextafter(1e-10, 0.0), math.nextafter(1e-10, 1.0),
-                                                                     -5e-11, -9.9e-11, -1.01e-10, -2e-10, 2 * PI + 2e-10, 2 * PI - 5e-11)]
-    dth = np.array([a[0] for a in dangs])
-    dph = np.array([a[1] for a in dangs])
-    dth0, dph0 = dth.copy(), dph.copy()
-    th0, ph0 = np.array([a[0] for a in angs]), np.array([a[1] for a in angs])
-    for L in ([0, 1, 2, 3, 5, 8] + ([12, 20] if ctx.thorough else [])):
-        d = np.asarray(ut.generate_derivative_real_spherical_harmonics(L, dth, dph), dtype=float)
-        model = driver_batch([f"C08.dYlm {L} {f2b(t)} {f2b(p)}" for t, p in zip(dth, dph)])
-        for j, (t, p, tag) in enumerate(dangs):
-            ctx.count(["dYlm", L, t, p], nontrivial=L >= 2, tag=f"dYlm:{tag}")
-            if not model[j].startswith("ok "):
-                ctx.fail("corr", "dYlm:shape", f"dYlm({L}) answered {model[j][:60]}")
-                continue
-            T = Tokens(model[j][3:])
-            m0, m1 = np.array(T.fvec()), np.array(T.fvec())
-            for which, mm, impl in (("theta", m0, d[0, :, j]), ("phi", m1, d[1, :, j])):
-                scale = max(1.0, float(np.nanmax(np.abs(impl))) if impl.size else 1.0)
-                dd, i = _maxdiff(mm, impl)
-                if dd > 1e-12 * (L + 1) * (1 + abs(t)) * scale:
-                    l, m = py_lm_order(L)[i] if i >= 0 else (-1, 0)
-                    ctx.fail("corr", f"dYlm:{which}",
-                             f"generate_derivative_real_spherical_harmonics(l_max={L}, theta={t!r}, phi={p!r})[{which}] "
-                             f"row {i} (l={l}, m={m}): implementation {impl[i] if i >= 0 else None!r}, model {mm[i] if i >= 0 else None!r}",
-                             witness={"routine": "deriv", "l_max": L, "theta": t, "phi": p, "component": which, "row": i, "angle_class": tag})
-    # the angle arrays handed to the three routines above (many calls, every degree) are still what they were
-    ctx.count(["angles-unchanged"], nontrivial=False, tag="input-unchanged")
-    for name, now, was in (("theta", th, th0), ("phi", ph, ph0), ("theta (derivative routine)", dth, dth0), ("phi (derivative routine)", dph, dph0)):
-        if not np.array_equal(now, was, equal_nan=True):
-            j = int(np.argmax(now != was))
-            ctx.fail("corr", "ylm:input-modified", f"the harmonics / derivative routines modified their argument {name} in place: "
-                     f"entry {j} was {was[j]!r}, is {now[j]!r}", witness={"argument": name, "index": j})
+    def _p_derivative():
+        # -- derivative routine -----------------------------------------------------------------
+        dangs = angs + [(ctx.rng.uniform(0, 6), x, "cot-threshold") for x in (5e-11, 9.9e-11, 1.01e-10, 2e-10, PI - 5e-11, PI + 2e-10)]
+        # exactly at / one ulp around |tan(phi)| = 1e-10, negative polar angles on both sides of it, next to 2 pi
+        dangs += [(ctx.rng.uniform(0, 6), x, "cot-threshold") for x in (1e-10, -1e-10, math.nextafter(1e-10, 0.0), math.nextafter(1e-10, 1.0),
+                                                                         -5e-11, -9.9e-11, -1.01e-10, -2e-10, 2 * PI + 2e-10, 2 * PI - 5e-11)]
+        dth = np.array([a[0] for a in dangs])
+        dph = np.array([a[1] for a in dangs])
+        dth0, dph0 = dth.copy(), dph.copy()
+        th0, ph0 = np.array([a[0] for a in angs]), np.array([a[1] for a in angs])
+        for L in ([0, 1, 2, 3, 5, 8] + ([12, 20] if ctx.thorough else [])):
+            d = np.asarray(ut.generate_derivative_real_spherical_harmonics(L, dth, dph), dtype=float)
+            model = driver_batch([f"C08.dYlm {L} {f2b(t)} {f2b(p)}" for t, p in zip(dth, dph)])
+            for j, (t, p, tag) in enumerate(dangs):
+                ctx.count(["dYlm", L, t, p], nontrivial=L >= 2, tag=f"dYlm:{tag}")
+                if not model[j].startswith("ok "):
+                    ctx.fail("corr", "dYlm:shape", f"dYlm({L}) answered {model[j][:60]}")
+                    continue
+                T = Tokens(model[j][3:])
+                m0, m1 = np.array(T.fvec()), np.array(T.fvec())
+                for which, mm, impl in (("theta", m0, d[0, :, j]), ("phi", m1, d[1, :, j])):
+                    scale = max(1.0, float(np.nanmax(np.abs(impl))) if impl.size else 1.0)
+                    dd, i = _maxdiff(mm, impl)
+                    if dd > 1e-12 * (L + 1) * (1 + abs(t)) * scale:
+                        l, m = py_lm_order(L)[i] if i >= 0 else (-1, 0)
+                        ctx.fail("corr", f"dYlm:{which}",
+                                 f"generate_derivative_real_spherical_harmonics(l_max={L}, theta={t!r}, phi={p!r})[{which}] "
+                                 f"row {i} (l={l}, m={m}): implementation {impl[i] if i >= 0 else None!r}, model {mm[i] if i >= 0 else None!r}",
+                                 witness={"routine": "deriv", "l_max": L, "theta": t, "phi": p, "component": which, "row": i, "angle_class": tag})
+        # the angle arrays handed to the three routines above (many calls, every degree) are still what they were
+        ctx.count(["angles-unchanged"], nontrivial=False, tag="input-unchanged")
+        for name, now, was in (("theta", th, th0), ("phi", ph, ph0), ("theta (derivative routine)", dth, dth0), ("phi (derivative routine)", dph, dph0)):
+            if not np.array_equal(now, was, equal_nan=True):
+                j = int(np.argmax(now != was))
+                ctx.fail("corr", "ylm:input-modified", f"the harmonics / derivative routines modified their argument {name} in place: "
+                         f"entry {j} was {was[j]!r}, is {now[j]!r}", witness={"argument": name, "index": j})
 
-    # -- solid harmonics -----------------------------------------------------------------------
-    for L in ([0, 1, 2, 3, 6, 10] + ([25] if ctx.thorough else [])):
-        rs = [0.0, 1.0, ctx.rng.uniform(0, 3), ctx.rng.uniform(0, 0.1), ctx.rng.uniform(1, 10)]
-        pts = [(r, *ctx.rng.choice(angs)[:2]) for r in rs for _ in range(3)]
-        impl = np.asarray(ut.solid_harmonics(L, np.array(pts)), dtype=float)
-        model = driver_batch([f"C08.solid {L} {f2b(r)} {f2b(t)} {f2b(p)}" for r, t, p in pts])
-        for j, (r, t, p) in enumerate(pts):
-            ctx.count(["solid", L, r, t, p], nontrivial=L >= 2 and r not in (0.0, 1.0), tag="solid:" + ("r=0" if r == 0 else "r>0"))
-            rows = _rows(model[j])
-            scale = max(1.0, r ** L)
-            d, i = _maxdiff(rows, impl[:, j]) if rows is not None else (float("inf"), -1)
-            if d > 1e-12 * (L + 1) * (1 + abs(t)) * scale:
-                ctx.fail("corr", "solid", f"solid_harmonics(l_max={L}, (r,theta,phi)=({r!r},{t!r},{p!r})) row {i}: "
-                         f"implementation {impl[i, j] if i >= 0 else None!r}, model {rows[i] if rows is not None and i >= 0 else None!r}",
-                         witness={"routine": "solid", "l_max": L, "r": r, "theta": t, "phi": p, "row": i})
+    def _p_solid():
+        # -- solid harmonics -----------------------------------------------------------------------
+        for L in ([0, 1, 2, 3, 6, 10] + ([25] if ctx.thorough else [])):
+            rs = [0.0, 1.0, ctx.rng.uniform(0, 3), ctx.rng.uniform(0, 0.1), ctx.rng.uniform(1, 10)]
+            pts = [(r, *ctx.rng.choice(angs)[:2]) for r in rs for _ in range(3)]
+            impl = np.asarray(ut.solid_harmonics(L, np.array(pts)), dtype=float)
+            model = driver_batch([f"C08.solid {L} {f2b(r)} {f2b(t)} {f2b(p)}" for r, t, p in pts])
+            for j, (r, t, p) in enumerate(pts):
+                ctx.count(["solid", L, r, t, p], nontrivial=L >= 2 and r not in (0.0, 1.0), tag="solid:" + ("r=0" if r == 0 else "r>0"))
+                rows = _rows(model[j])
+                scale = max(1.0, r ** L)
+                d, i = _maxdiff(rows, impl[:, j]) if rows is not None else (float("inf"), -1)
+                if d > 1e-12 * (L + 1) * (1 + abs(t)) * scale:
+                    ctx.fail("corr", "solid", f"solid_harmonics(l_max={L}, (r,theta,phi)=({r!r},{t!r},{p!r})) row {i}: "
+                             f"implementation {impl[i, j] if i >= 0 else None!r}, model {rows[i] if rows is not None and i >= 0 else None!r}",
+                             witness={"routine": "solid", "l_max": L, "r": r, "theta": t, "phi": p, "row": i})
 
-    # -- convert_cart_to_sph ----------------------------------------------------------------------
-    cases = []
-    for _ in range(ctx.n(60, 1500)):
-        kind = ctx.rng.choice(["generic", "generic", "centre-itself", "axis", "plane", "no-centre", "far"])
-        c = [ctx.rng.uniform(-3, 3) for _ in range(3)]
-        p = [ctx.rng.uniform(-5, 5) for _ in range(3)]
-        if kind == "centre-itself":
-            p = list(c)
-        elif kind == "axis":
-            p = [c[0], c[1], c[2] + ctx.rng.choice([-1, 1]) * ctx.rng.uniform(0.1, 4)]
-        elif kind == "plane":
-            p = [p[0], p[1], c[2]]
-        elif kind == "no-centre":
-            c = None
-        elif kind == "far":
-            p = [x * 1e6 for x in p]
-        cases.append((p, c, kind))
-    lines = []
-    for p, c, kind in cases:
-        cc = c if c is not None else [0.0, 0.0, 0.0]
-        lines.append("C08.cartToSph " + " ".join(f2b(x) for x in p + cc))
-    model = driver_batch(lines)
-    # the same inputs through the definition generated from the source (answers bad-op with a driver built before it existed)
-    gen = driver_batch([ln.replace("C08.cartToSph", "C08.genCartToSph", 1) for ln in lines])
-    if any(a == "bad-op" for a in gen):
-        ctx.info("driver without the op C08.genCartToSph: the generated convert_cart_to_sph was not compared in this run")
-        gen = [None] * len(lines)
-    for (p, c, kind), a, ag in zip(cases, model, gen):
-        impl = ut.convert_cart_to_sph(np.array([p]), None if c is None else np.array(c))[0]
-        ctx.count(["cartToSph", p, c], nontrivial=(c is not None and p != c), tag=f"cartToSph:{kind}")
-        for mname, ans in (("model", a), ("generated model", ag)):
-            if ans is None:
-                continue
-            T = Tokens(ans[3:]) if ans.startswith("ok ") else None
-            got = [T.flt(), T.flt(), T.flt()] if T else None
-            if got is None or not all(close(x, y, rtol=1e-13, atol=1e-15, scale=max(1.0, abs(float(y)))) for x, y in zip(got, impl)):
-                ctx.fail("corr", "cartToSph" if mname == "model" else "genCartToSph",
-                         f"convert_cart_to_sph({p}, center={c}) = {impl.tolist()}, {mname} {got if got is not None else ans[:40]}",
-                         witness={"routine": "c2s", "point": p, "center": c, "impl": impl.tolist(), "model": got})
-    # rejected shapes (implementation only; the model is typed)
-    for bad in (np.zeros(3), np.zeros((2, 2)), np.zeros((2, 3, 1))):
-        ctx.count(["cartToSph", "shape", list(bad.shape)], nontrivial=False, tag="cartToSph:malformed")
+    def _p_cart_to_sph():
+        # -- convert_cart_to_sph ----------------------------------------------------------------------
+        cases = []
+        for _ in range(ctx.n(60, 1500)):
+            kind = ctx.rng.choice(["generic", "generic", "centre-itself", "axis", "plane", "no-centre", "far"])
+            c = [ctx.rng.uniform(-3, 3) for _ in range(3)]
+            p = [ctx.rng.uniform(-5, 5) for _ in range(3)]
+            if kind == "centre-itself":
+                p = list(c)
+            elif kind == "axis":
+                p = [c[0], c[1], c[2] + ctx.rng.choice([-1, 1]) * ctx.rng.uniform(0.1, 4)]
+            elif kind == "plane":
+                p = [p[0], p[1], c[2]]
+            elif kind == "no-centre":
+                c = None
+            elif kind == "far":
+                p = [x * 1e6 for x in p]
+            cases.append((p, c, kind))
+        lines = []
+        for p, c, kind in cases:
+            cc = c if c is not None else [0.0, 0.0, 0.0]
+            lines.append("C08.cartToSph " + " ".join(f2b(x) for x in p + cc))
+        model = driver_batch(lines)
+        # the same inputs through the definition generated from the source (answers bad-op with a driver built before it existed)
+        gen = driver_batch([ln.replace("C08.cartToSph", "C08.genCartToSph", 1) for ln in lines])
+        if any(a == "bad-op" for a in gen):
+            ctx.info("driver without the op C08.genCartToSph: the generated convert_cart_to_sph was not compared in this run")
+            gen = [None] * len(lines)
+        for (p, c, kind), a, ag in zip(cases, model, gen):
+            impl = ut.convert_cart_to_sph(np.array([p]), None if c is None else np.array(c))[0]
+            ctx.count(["cartToSph", p, c], nontrivial=(c is not None and p != c), tag=f"cartToSph:{kind}")
+            for mname, ans in (("model", a), ("generated model", ag)):
+                if ans is None:
+                    continue
+                T = Tokens(ans[3:]) if ans.startswith("ok ") else None
+                got = [T.flt(), T.flt(), T.flt()] if T else None
+                if got is None or not all(close(x, y, rtol=1e-13, atol=1e-15, scale=max(1.0, abs(float(y)))) for x, y in zip(got, impl)):
+                    ctx.fail("corr", "cartToSph" if mname == "model" else "genCartToSph",
+                             f"convert_cart_to_sph({p}, center={c}) = {impl.tolist()}, {mname} {got if got is not None else ans[:40]}",
+                             witness={"routine": "c2s", "point": p, "center": c, "impl": impl.tolist(), "model": got})
+        # rejected shapes (implementation only; the model is typed)
+        for bad in (np.zeros(3), np.zeros((2, 2)), np.zeros((2, 3, 1))):
+            ctx.count(["cartToSph", "shape", list(bad.shape)], nontrivial=False, tag="cartToSph:malformed")
+            try:
+                ut.convert_cart_to_sph(bad)
+                ctx.fail("corr", "cartToSph:malformed", f"points of shape {bad.shape} not rejected")
+            except ValueError:
+                pass
         try:
-            ut.convert_cart_to_sph(bad)
-            ctx.fail("corr", "cartToSph:malformed", f"points of shape {bad.shape} not rejected")
+            ut.convert_cart_to_sph(np.zeros((2, 3)), center=[0.0, 1.0])
+            ctx.fail("corr", "cartToSph:malformed", "center of length 2 not rejected")
         except ValueError:
             pass
-    try:
-        ut.convert_cart_to_sph(np.zeros((2, 3)), center=[0.0, 1.0])
-        ctx.fail("corr", "cartToSph:malformed", "center of length 2 not rejected")
-    except ValueError:
-        pass
-    try:
-        ut.generate_real_spherical_harmonics_scipy(-1, np.zeros(1), np.zeros(1))
-        ctx.fail("corr", "ylm:malformed", "l_max = -1 not rejected by the SciPy-based routine")
-    except ValueError:
-        pass
+        try:
+            ut.generate_real_spherical_harmonics_scipy(-1, np.zeros(1), np.zeros(1))
+            ctx.fail("corr", "ylm:malformed", "l_max = -1 not rejected by the SciPy-based routine")
+        except ValueError:
+            pass
 
-    # -- convert_derivative_from_spherical_to_cartesian ------------------------------------------------
-    cases = []
-    for _ in range(ctx.n(60, 1500)):
-        kind = ctx.rng.choice(["generic", "generic", "r=0", "r-small", "phi=0", "phi-small", "both", "phi<0"])
-        r = ctx.rng.uniform(0.1, 5)
-        t = ctx.rng.uniform(-7, 7)
-        p = ctx.rng.uniform(0.05, 3.0)
-        if kind == "r=0":
-            r = 0.0
-        elif kind == "r-small":
-            r = ctx.rng.choice([5e-11, -5e-11, 2e-10])
-        elif kind == "phi=0":
-            p = 0.0
-        elif kind == "phi-small":
-            p = ctx.rng.choice([5e-11, -5e-11, 2e-10])
-        elif kind == "both":
-            r, p = 0.0, 0.0
-        elif kind == "phi<0":
-            p = -p
-        d = [ctx.rng.uniform(-2, 2) for _ in range(3)]
-        cases.append((d, r, t, p, kind))
-    # both sides of the two hard-coded thresholds |r| < 1e-10 and |phi| < 1e-10, either sign, and both at once
-    e = 1e-10
-    for x in (e, math.nextafter(e, 0.0), math.nextafter(e, 1.0)):
-        for sg in (1.0, -1.0):
-            for kind, (r, p) in (("r-threshold", (sg * x, ctx.rng.uniform(0.05, 3.0))), ("r-threshold", (sg * x, -ctx.rng.uniform(0.05, 3.0))),
-                                 ("phi-threshold", (ctx.rng.uniform(0.1, 5), sg * x)), ("phi-threshold", (-ctx.rng.uniform(0.1, 5), sg * x)),
-                                 ("both-thresholds", (sg * x, -sg * x)), ("both-thresholds", (sg * x, sg * e)), ("both-thresholds", (sg * e, sg * x))):
-                cases.append(([ctx.rng.uniform(-2, 2) for _ in range(3)], r, ctx.rng.uniform(-7, 7), p, kind))
-    # integer-valued arguments (called below as Python ints and np.int64)
-    cases += [([1.0, -2.0, 3.0], 2.0, 1.0, 2.0, "int-valued"), ([0.0, 1.0, 0.0], 1.0, 0.0, 1.0, "int-valued"),
-              ([2.0, 1.0, -1.0], 0.0, 3.0, 1.0, "int-valued"), ([2.0, 1.0, -1.0], 3.0, -2.0, 0.0, "int-valued")]
-    cases += _jacobian_threshold_cases(ctx)
-    model = driver_batch(["C08.convDeriv " + " ".join(f2b(x) for x in d + [r, t, p]) for d, r, t, p, _ in cases])
-    genm = driver_batch(["C08.genConvDeriv " + " ".join(f2b(x) for x in d + [r, t, p]) for d, r, t, p, _ in cases])
-    names = ("deriv_r", "deriv_theta", "deriv_phi", "r", "theta", "phi")
-    fconv = ut.convert_derivative_from_spherical_to_cartesian
-    for i, ((d, r, t, p, kind), a) in enumerate(zip(cases, model)):
-        args = d + [r, t, p]
-        # every route to the routine: positional / keyword (any order), Python float / NumPy scalar / 0-d array / integers
-        route = ("python-int", "np.int64")[i % 2] if kind == "int-valued" else ("positional", "keyword", "np.float64", "0-d-array", "keyword-reordered")[i % 5]
-        if route == "positional":
-            impl = fconv(*args)
-        elif route == "keyword":
-            impl = fconv(**dict(zip(names, args)))
-        elif route == "keyword-reordered":
-            impl = fconv(**dict(reversed(list(zip(names, args)))))
-        elif route == "np.float64":
-            impl = fconv(*[np.float64(x) for x in args])
-        elif route == "0-d-array":
-            impl = fconv(*[np.array(x) for x in args])
-        elif route == "python-int":
-            impl = fconv(*[int(x) for x in args])
-        else:
-            impl = fconv(*[np.int64(x) for x in args])
-        impl = np.asarray(impl, dtype=float)
-        ctx.count(["convDeriv", d, r, t, p, route], nontrivial=True, tag=f"convDeriv:{kind}")
-        ctx.tagc(f"convDeriv:route:{route}")
-        got = _rows(a)
-        scale = max(1.0, float(np.max(np.abs(impl)))) if np.all(np.isfinite(impl)) else 1.0
-        if got is None or len(got) != 3 or not all(close(x, y, rtol=1e-12, scale=scale) for x, y in zip(got, impl)):
-            ctx.fail("corr", "convDeriv", f"convert_derivative_from_spherical_to_cartesian({d}, r={r!r}, theta={t!r}, phi={p!r}) = "
-                     f"{impl.tolist()}, model {None if got is None else got.tolist()}",
-                     witness={"routine": "convDeriv", "deriv": d, "r": r, "theta": t, "phi": p, "class": kind, "route": route})
-        gg = _rows(genm[i])
-        if gg is None or len(gg) != 3 or not all(close(x, y, rtol=1e-12, scale=scale) for x, y in zip(gg, impl)):
-            ctx.fail("corr", "genConvDeriv", f"convert_derivative_from_spherical_to_cartesian({d}, r={r!r}, theta={t!r}, phi={p!r}) = "
-                     f"{impl.tolist()}, definition generated from the source {None if gg is None else gg.tolist()} ({genm[i][:30]})",
-                     witness={"routine": "convDeriv", "deriv": d, "r": r, "theta": t, "phi": p, "class": kind, "route": route})
-        if i % 7 == 0:   # the vector handed out is the caller's: modified in place, then the same call again
-            first = np.array(fconv(*args), dtype=float)
-            res = fconv(*args)
-            try:
-                res[...] = 3.0
-            except Exception:
-                pass
-            again = np.array(fconv(*args), dtype=float)
-            ctx.tagc("convDeriv:result-modified")
-            if not np.array_equal(first, again, equal_nan=True):
-                ctx.fail("corr", "convDeriv:result-modified", f"convert_derivative_from_spherical_to_cartesian({d}, r={r!r}, theta={t!r}, phi={p!r}) returns "
-                         f"{again.tolist()} after the caller modified the previous result in place, {first.tolist()} before",
+    def _p_conv_deriv():
+        # -- convert_derivative_from_spherical_to_cartesian ------------------------------------------------
+        cases = []
+        for _ in range(ctx.n(60, 1500)):
+            kind = ctx.rng.choice(["generic", "generic", "r=0", "r-small", "phi=0", "phi-small", "both", "phi<0"])
+            r = ctx.rng.uniform(0.1, 5)
+            t = ctx.rng.uniform(-7, 7)
+            p = ctx.rng.uniform(0.05, 3.0)
+            if kind == "r=0":
+                r = 0.0
+            elif kind == "r-small":
+                r = ctx.rng.choice([5e-11, -5e-11, 2e-10])
+            elif kind == "phi=0":
+                p = 0.0
+            elif kind == "phi-small":
+                p = ctx.rng.choice([5e-11, -5e-11, 2e-10])
+            elif kind == "both":
+                r, p = 0.0, 0.0
+            elif kind == "phi<0":
+                p = -p
+            d = [ctx.rng.uniform(-2, 2) for _ in range(3)]
+            cases.append((d, r, t, p, kind))
+        # both sides of the two hard-coded thresholds |r| < 1e-10 and |phi| < 1e-10, either sign, and both at once
+        e = 1e-10
+        for x in (e, math.nextafter(e, 0.0), math.nextafter(e, 1.0)):
+            for sg in (1.0, -1.0):
+                for kind, (r, p) in (("r-threshold", (sg * x, ctx.rng.uniform(0.05, 3.0))), ("r-threshold", (sg * x, -ctx.rng.uniform(0.05, 3.0))),
+                                     ("phi-threshold", (ctx.rng.uniform(0.1, 5), sg * x)), ("phi-threshold", (-ctx.rng.uniform(0.1, 5), sg * x)),
+                                     ("both-thresholds", (sg * x, -sg * x)), ("both-thresholds", (sg * x, sg * e)), ("both-thresholds", (sg * e, sg * x))):
+                    cases.append(([ctx.rng.uniform(-2, 2) for _ in range(3)], r, ctx.rng.uniform(-7, 7), p, kind))
+        # integer-valued arguments (called below as Python ints and np.int64)
+        cases += [([1.0, -2.0, 3.0], 2.0, 1.0, 2.0, "int-valued"), ([0.0, 1.0, 0.0], 1.0, 0.0, 1.0, "int-valued"),
+                  ([2.0, 1.0, -1.0], 0.0, 3.0, 1.0, "int-valued"), ([2.0, 1.0, -1.0], 3.0, -2.0, 0.0, "int-valued")]
+        cases += _jacobian_threshold_cases(ctx)
+        model = driver_batch(["C08.convDeriv " + " ".join(f2b(x) for x in d + [r, t, p]) for d, r, t, p, _ in cases])
+        genm = driver_batch(["C08.genConvDeriv " + " ".join(f2b(x) for x in d + [r, t, p]) for d, r, t, p, _ in cases])
+        names = ("deriv_r", "deriv_theta", "deriv_phi", "r", "theta", "phi")
+        fconv = ut.convert_derivative_from_spherical_to_cartesian
+        for i, ((d, r, t, p, kind), a) in enumerate(zip(cases, model)):
+            args = d + [r, t, p]
+            # every route to the routine: positional / keyword (any order), Python float / NumPy scalar / 0-d array / integers
+            route = ("python-int", "np.int64")[i % 2] if kind == "int-valued" else ("positional", "keyword", "np.float64", "0-d-array", "keyword-reordered")[i % 5]
+            if route == "positional":
+                impl = fconv(*args)
+            elif route == "keyword":
+                impl = fconv(**dict(zip(names, args)))
+            elif route == "keyword-reordered":
+                impl = fconv(**dict(reversed(list(zip(names, args)))))
+            elif route == "np.float64":
+                impl = fconv(*[np.float64(x) for x in args])
+            elif route == "0-d-array":
+                impl = fconv(*[np.array(x) for x in args])
+            elif route == "python-int":
+                impl = fconv(*[int(x) for x in args])
+            else:
+                impl = fconv(*[np.int64(x) for x in args])
+            impl = np.asarray(impl, dtype=float)
+            ctx.count(["convDeriv", d, r, t, p, route], nontrivial=True, tag=f"convDeriv:{kind}")
+            ctx.tagc(f"convDeriv:route:{route}")
+            got = _rows(a)
+            scale = max(1.0, float(np.max(np.abs(impl)))) if np.all(np.isfinite(impl)) else 1.0
+            if got is None or len(got) != 3 or not all(close(x, y, rtol=1e-12, scale=scale) for x, y in zip(got, impl)):
+                ctx.fail("corr", "convDeriv", f"convert_derivative_from_spherical_to_cartesian({d}, r={r!r}, theta={t!r}, phi={p!r}) = "
+                         f"{impl.tolist()}, model {None if got is None else got.tolist()}",
                          witness={"routine": "convDeriv", "deriv": d, "r": r, "theta": t, "phi": p, "class": kind, "route": route})
+            gg = _rows(genm[i])
+            if gg is None or len(gg) != 3 or not all(close(x, y, rtol=1e-12, scale=scale) for x, y in zip(gg, impl)):
+                ctx.fail("corr", "genConvDeriv", f"convert_derivative_from_spherical_to_cartesian({d}, r={r!r}, theta={t!r}, phi={p!r}) = "
+                         f"{impl.tolist()}, definition generated from the source {None if gg is None else gg.tolist()} ({genm[i][:30]})",
+                         witness={"routine": "convDeriv", "deriv": d, "r": r, "theta": t, "phi": p, "class": kind, "route": route})
+            if i % 7 == 0:   # the vector handed out is the caller's: modified in place, then the same call again
+                first = np.array(fconv(*args), dtype=float)
+                res = fconv(*args)
+                try:
+                    res[...] = 3.0
+                except Exception:
+                    pass
+                again = np.array(fconv(*args), dtype=float)
+                ctx.tagc("convDeriv:result-modified")
+                if not np.array_equal(first, again, equal_nan=True):
+                    ctx.fail("corr", "convDeriv:result-modified", f"convert_derivative_from_spherical_to_cartesian({d}, r={r!r}, theta={t!r}, phi={p!r}) returns "
+                             f"{again.tolist()} after the caller modified the previous result in place, {first.tolist()} before",
+                             witness={"routine": "convDeriv", "deriv": d, "r": r, "theta": t, "phi": p, "class": kind, "route": route})
 
-    # -- container / dtype kinds, call routes, kinds of l_max, call histories, object identity: every answer vs the model
-    variants = _variants(ctx)
-    _run_variants(ctx, ut, "corr", variants, _model_refs(variants), "model")
-    # -- derivative routine and solid harmonics beyond l_max = 150 (long double region of the recursion)
-    _corr_high_degree(ctx, ut)
-    # -- convert_cart_to_sph: kinds of points / centre, call routes, radii from 1e-200 to 1e200, histories, identity
-    _run_c2s(ctx, ut, "corr")
-    # -- round 3: the definitions generated from the source at Float; special points of a non-trivial frame through the
-    #    whole pipeline; exact translations to far centres; rows relative to r^l; zero points; the routines after one another
-    _corr_generated(ctx, ut, angs)
-    _special_point_pipeline(ctx, ut, "corr")
-    _far_centres(ctx, ut, "corr")
-    _scaled_solid(ctx, ut, "corr")
-    _empty_inputs(ctx, ut, "corr")
-    _cross_routine_history(ctx, ut, "corr")
+    def _p_variants():
+        # container / dtype kinds, call routes, kinds of l_max, call histories, object identity, shapes: every answer vs the model
+        variants = _variants(ctx)
+        _run_variants(ctx, ut, "corr", variants, _model_refs(variants), "model")
+
+    _run_parts(ctx, "corr", ut, [
+        ("row-order", _p_row_order), ("harmonics", _p_harmonics), ("high-degree-recursion", _p_high_degree_recursion),
+        ("derivative", _p_derivative), ("solid", _p_solid), ("cart-to-sph", _p_cart_to_sph), ("conv-deriv", _p_conv_deriv),
+        ("variants", _p_variants),
+        # derivative routine and solid harmonics beyond l_max = 150 (long double region of the recursion)
+        ("high-degree", lambda: _corr_high_degree(ctx, ut)),
+        # convert_cart_to_sph: kinds of points / centre, call routes, radii from 1e-200 to 1e200, histories, identity
+        ("c2s-variants", lambda: _run_c2s(ctx, ut, "corr")),
+        # round 3: the definitions generated from the source at Float; special points of a non-trivial frame through the
+        # whole pipeline; exact translations to far centres; rows relative to r^l; zero points; the routines after one another
+        ("generated", lambda: _corr_generated(ctx, ut, angs)),
+        ("special-points", lambda: _special_point_pipeline(ctx, ut, "corr")),
+        ("far-centres", lambda: _far_centres(ctx, ut, "corr")),
+        ("scaled-solid", lambda: _scaled_solid(ctx, ut, "corr")),
+        ("empty-inputs", lambda: _empty_inputs(ctx, ut, "corr")),
+        ("cross-routine", lambda: _cross_routine_history(ctx, ut, "corr")),
+        # round 4: extreme radii through the pipeline
+        ("extreme-pipeline", lambda: _extreme_pipeline(ctx, ut, "corr")),
+    ])
+
 
 
 # --------------------------------------------------------------------------------------
@@ -1736,201 +2254,220 @@ def oracle(ctx: Ctx, budget: str):
     th = np.array([a[0] for a in angs])
     ph = np.array([a[1] for a in angs])
 
-    # (a) definition, order, normalisation: every row against the 50-digit definition
-    Ldef = 16 if not large else 40
-    sel = list(range(len(angs))) if large else list(range(0, len(angs), 2))
-    vals = {k: np.asarray(f(Ldef, th, ph), dtype=float) for k, f in fns.items()}
-    for j in sel:
-        t, p, tag = angs[j]
-        tol = 1e-13 * (Ldef + 1) * (1 + abs(t)) * 4
-        lms = py_lm_order(Ldef)
-        if not large:  # all rows up to l=6, then a seeded sample
-            lms = [x for x in lms if x[0] <= 6] + ctx.rng.sample([x for x in lms if x[0] > 6], 25)
-        for l, m in lms:
-            want = float(mp_ylm(mp, l, m, t, p))
-            for k in fns:
-                got = float(vals[k][row_index(l, m), j])
-                if not abs(got - want) <= tol:
-                    ctx.fail("oracle", f"utils.{fn_src[k]}:definition:{'principal' if 0 <= p <= PI else 'outside-principal-range'}",
-                             f"{fn_src[k]}(l_max={Ldef}, theta={t!r}, phi={p!r}) row (l={l}, m={m}) = {got!r}, definition (50 digits) {want!r}",
-                             witness={"l_max": Ldef, "theta": t, "phi": p, "l": l, "m": m, "got": got, "want": want, "angle_class": tag},
-                             snippet=SNIP_DEF.format(fn=fn_src[k], L=Ldef, theta=t, phi=p, l=l, m=m, tol=tol))
+    def _p_definition():
+        # (a) definition, order, normalisation: every row against the 50-digit definition
+        Ldef = 16 if not large else 40
+        sel = list(range(len(angs))) if large else list(range(0, len(angs), 2))
+        vals = {k: np.asarray(f(Ldef, th, ph), dtype=float) for k, f in fns.items()}
+        for j in sel:
+            t, p, tag = angs[j]
+            tol = 1e-13 * (Ldef + 1) * (1 + abs(t)) * 4
+            lms = py_lm_order(Ldef)
+            if not large:  # all rows up to l=6, then a seeded sample
+                lms = [x for x in lms if x[0] <= 6] + ctx.rng.sample([x for x in lms if x[0] > 6], 25)
+            for l, m in lms:
+                want = float(mp_ylm(mp, l, m, t, p))
+                for k in fns:
+                    got = float(vals[k][row_index(l, m), j])
+                    if not abs(got - want) <= tol:
+                        ctx.fail("oracle", f"utils.{fn_src[k]}:definition:{'principal' if 0 <= p <= PI else 'outside-principal-range'}",
+                                 f"{fn_src[k]}(l_max={Ldef}, theta={t!r}, phi={p!r}) row (l={l}, m={m}) = {got!r}, definition (50 digits) {want!r}",
+                                 witness={"l_max": Ldef, "theta": t, "phi": p, "l": l, "m": m, "got": got, "want": want, "angle_class": tag},
+                                 snippet=SNIP_DEF.format(fn=fn_src[k], L=Ldef, theta=t, phi=p, l=l, m=m, tol=tol))
 
-    # (b) agreement of the two implementations, all rows, higher degree
-    for L in ([5, 20, 151 + ctx.rng.randrange(0, 60)] + ([60, 325] if large else [])):
-        A = np.asarray(fns["recursion"](L, th, ph), dtype=float)
-        B = np.asarray(fns["scipy"](L, th, ph), dtype=float)
-        for j, (t, p, tag) in enumerate(angs):
-            d, i = _maxdiff(A[:, j], B[:, j])
-            if d > 1e-13 * (L + 1) * (1 + abs(t)) * 4:
-                l, m = py_lm_order(L)[i]
-                ctx.fail("oracle", f"utils.generate_real_spherical_harmonics_scipy:agreement:{'principal' if 0 <= p <= PI else 'outside-principal-range'}",
-                         f"the two implementations differ at l_max={L}, theta={t!r}, phi={p!r}, row (l={l}, m={m}): recursion {float(A[i, j])!r}, scipy {float(B[i, j])!r}",
-                         witness={"l_max": L, "theta": t, "phi": p, "l": l, "m": m, "angle_class": tag},
-                         snippet=("import warnings; warnings.filterwarnings('ignore')\nimport numpy as np\n"
-                                  "from grid.utils import generate_real_spherical_harmonics as f, generate_real_spherical_harmonics_scipy as g\n"
-                                  f"t, p = np.array([{t!r}]), np.array([{p!r}])\n"
-                                  f"a, b = np.asarray(f({L}, t, p), dtype=float)[{i}, 0], g({L}, t, p)[{i}, 0]\n"
-                                  f"assert abs(a - b) <= 1e-10, f'row {i} (l={l}, m={m}): recursion {{a!r}}, scipy {{b!r}}'\n"))
+    def _p_agreement():
+        # (b) agreement of the two implementations, all rows, higher degree
+        for L in ([5, 20, 151 + ctx.rng.randrange(0, 60)] + ([60, 325] if large else [])):
+            A = np.asarray(fns["recursion"](L, th, ph), dtype=float)
+            B = np.asarray(fns["scipy"](L, th, ph), dtype=float)
+            for j, (t, p, tag) in enumerate(angs):
+                d, i = _maxdiff(A[:, j], B[:, j])
+                if d > 1e-13 * (L + 1) * (1 + abs(t)) * 4:
+                    l, m = py_lm_order(L)[i]
+                    ctx.fail("oracle", f"utils.generate_real_spherical_harmonics_scipy:agreement:{'principal' if 0 <= p <= PI else 'outside-principal-range'}",
+                             f"the two implementations differ at l_max={L}, theta={t!r}, phi={p!r}, row (l={l}, m={m}): recursion {float(A[i, j])!r}, scipy {float(B[i, j])!r}",
+                             witness={"l_max": L, "theta": t, "phi": p, "l": l, "m": m, "angle_class": tag},
+                             snippet=("import warnings; warnings.filterwarnings('ignore')\nimport numpy as np\n"
+                                      "from grid.utils import generate_real_spherical_harmonics as f, generate_real_spherical_harmonics_scipy as g\n"
+                                      f"t, p = np.array([{t!r}]), np.array([{p!r}])\n"
+                                      f"a, b = np.asarray(f({L}, t, p), dtype=float)[{i}, 0], g({L}, t, p)[{i}, 0]\n"
+                                      f"assert abs(a - b) <= 1e-10, f'row {i} (l={l}, m={m}): recursion {{a!r}}, scipy {{b!r}}'\n"))
 
-    # (c) addition theorem with mpmath.legendre
-    Ladd = 30 if not large else 60
-    npairs = 10 if not large else 30
-    for _ in range(npairs):
-        a = ctx.rng.choice(angs)
-        b = ctx.rng.choice(angs)
-        ua = [mp.cos(mp.mpf(a[0])) * mp.sin(mp.mpf(a[1])), mp.sin(mp.mpf(a[0])) * mp.sin(mp.mpf(a[1])), mp.cos(mp.mpf(a[1]))]
-        ub = [mp.cos(mp.mpf(b[0])) * mp.sin(mp.mpf(b[1])), mp.sin(mp.mpf(b[0])) * mp.sin(mp.mpf(b[1])), mp.cos(mp.mpf(b[1]))]
-        cosg = ua[0] * ub[0] + ua[1] * ub[1] + ua[2] * ub[2]
-        for k, f in fns.items():
-            Y = np.asarray(f(Ladd, np.array([a[0], b[0]]), np.array([a[1], b[1]])), dtype=float)
-            for l in range(Ladd + 1):
-                want = float((2 * l + 1) / (4 * mp.pi) * mp.legendre(l, cosg))
-                got = float(np.dot(Y[l * l:(l + 1) ** 2, 0], Y[l * l:(l + 1) ** 2, 1]))
-                tol = 1e-13 * (2 * l + 1) * (Ladd + 1) * (1 + max(abs(a[0]), abs(b[0])))
-                if not abs(got - want) <= tol:
-                    ctx.fail("oracle", f"utils.{fn_src[k]}:addition-theorem",
-                             f"{fn_src[k]}: sum_m Y_lm(a) Y_lm(b) = {got!r} but (2l+1)/(4 pi) P_l(cos gamma) = {want!r} at l={l}, "
-                             f"a=(theta,phi)={a[:2]}, b={b[:2]}",
-                             witness={"l": l, "a": a[:2], "b": b[:2], "got": got, "want": want},
-                             snippet=SNIP_ADD.format(fn=fn_src[k], L=Ladd, l=l, a=tuple(a[:2]), b=tuple(b[:2]), tol=tol))
-                    break
+    def _p_addition_theorem():
+        # (c) addition theorem with mpmath.legendre
+        Ladd = 30 if not large else 60
+        npairs = 10 if not large else 30
+        for _ in range(npairs):
+            a = ctx.rng.choice(angs)
+            b = ctx.rng.choice(angs)
+            ua = [mp.cos(mp.mpf(a[0])) * mp.sin(mp.mpf(a[1])), mp.sin(mp.mpf(a[0])) * mp.sin(mp.mpf(a[1])), mp.cos(mp.mpf(a[1]))]
+            ub = [mp.cos(mp.mpf(b[0])) * mp.sin(mp.mpf(b[1])), mp.sin(mp.mpf(b[0])) * mp.sin(mp.mpf(b[1])), mp.cos(mp.mpf(b[1]))]
+            cosg = ua[0] * ub[0] + ua[1] * ub[1] + ua[2] * ub[2]
+            for k, f in fns.items():
+                Y = np.asarray(f(Ladd, np.array([a[0], b[0]]), np.array([a[1], b[1]])), dtype=float)
+                for l in range(Ladd + 1):
+                    want = float((2 * l + 1) / (4 * mp.pi) * mp.legendre(l, cosg))
+                    got = float(np.dot(Y[l * l:(l + 1) ** 2, 0], Y[l * l:(l + 1) ** 2, 1]))
+                    tol = 1e-13 * (2 * l + 1) * (Ladd + 1) * (1 + max(abs(a[0]), abs(b[0])))
+                    if not abs(got - want) <= tol:
+                        ctx.fail("oracle", f"utils.{fn_src[k]}:addition-theorem",
+                                 f"{fn_src[k]}: sum_m Y_lm(a) Y_lm(b) = {got!r} but (2l+1)/(4 pi) P_l(cos gamma) = {want!r} at l={l}, "
+                                 f"a=(theta,phi)={a[:2]}, b={b[:2]}",
+                                 witness={"l": l, "a": a[:2], "b": b[:2], "got": got, "want": want},
+                                 snippet=SNIP_ADD.format(fn=fn_src[k], L=Ladd, l=l, a=tuple(a[:2]), b=tuple(b[:2]), tol=tol))
+                        break
 
-    # (d) derivatives: 50-digit numerical derivative of the definition vs the routine, away from the poles;
-    #     pole convention; d/dtheta identity
-    Ld = 5 if not large else 8
-    dsel = [a for a in angs if abs(math.sin(a[1])) > 1e-3]
-    # angles outside the principal range (sin(phi) < 0, phi > 2 pi, negative) are always in
-    dsel = dsel if large else dsel[::3] + [a for a in dsel if a[2] in ("phi<0", "both<0", "phi in (pi,2pi)", "phi>2pi")]
-    dsel += [(ctx.rng.uniform(0, 6), ctx.rng.uniform(-3 * PI + 0.2, -2 * PI - 0.2), "phi in (-3pi,-2pi)"),
-             (ctx.rng.uniform(-6, 0), ctx.rng.uniform(-PI + 0.2, -0.2), "phi in (-pi,0)")]
-    # close to, but not on, the polar axis: the documented zero convention applies only where |tan(phi)| < 1e-10 (the code's
-    # threshold); from 1.01e-10 on the routine must return the true derivative (m = +-1 rows are O(1) there)
-    for _ in range(3 if not large else 12):
-        e = 10 ** ctx.rng.uniform(-9.99, -3.0)
-        dsel.append((ctx.rng.uniform(0, 6), ctx.rng.choice([e, -e, PI - e, PI + e, 2 * PI + e]), "near-pole"))
-    dsel += [(ctx.rng.uniform(0, 6), 1.05e-10, "near-pole"), (ctx.rng.uniform(0, 6), PI - 3e-9, "near-pole")]
-    for t, p, tag in dsel:
-        d = np.asarray(ut.generate_derivative_real_spherical_harmonics(Ld, np.array([t]), np.array([p])), dtype=float)
-        for l, m in py_lm_order(Ld):
-            row = row_index(l, m)
-            # the definition is evaluated at the point of the sphere, so differentiate along the curves theta+h, phi+h
-            wt = float(mp.diff(lambda x: mp_ylm(mp, l, m, mp.mpf(t) + x, p), 0, h=mp.mpf(10) ** -15))
-            wp = float(mp.diff(lambda x: mp_ylm(mp, l, m, t, mp.mpf(p) + x), 0, h=mp.mpf(10) ** -15))
-            for comp, want in ((0, wt), (1, wp)):
-                got = float(d[comp, row, 0])
-                # the routine forms cos/sin(float(m) * theta) in double precision: the rounding of m * theta is part of the input
-                if not abs(got - want) <= (1e-10 + 1e-15 * (Ld + 1) ** 2 * abs(t)) * max(1.0, abs(want)):
-                    cls = "principal" if 0 <= p <= PI else "outside-principal-range"
-                    ctx.fail("oracle", f"utils.generate_derivative_real_spherical_harmonics:d{['theta', 'phi'][comp]}:{cls}",
-                             f"generate_derivative_real_spherical_harmonics(l_max={Ld}, theta={t!r}, phi={p!r})[{comp}] row (l={l}, m={m}) = {got!r}, "
-                             f"derivative of the definition (50 digits) {want!r}",
-                             witness={"l_max": Ld, "theta": t, "phi": p, "l": l, "m": m, "component": ["theta", "phi"][comp],
-                                      "got": got, "want": want, "angle_class": tag},
-                             snippet=SNIP_DER.format(L=Ld, theta=t, phi=p, row=row, comp=comp))
-    # pole convention: at phi = 0 the derivative with respect to phi is returned as 0 (documented); the theta derivative
-    # is -m Y_{l,-m} everywhere
-    for t, p, tag in [a for a in angs if a[2] in ("north-pole", "zero")] + angs[5:9]:
-        d = np.asarray(ut.generate_derivative_real_spherical_harmonics(Ld, np.array([t]), np.array([p])), dtype=float)
-        Y = np.asarray(ut.generate_real_spherical_harmonics(Ld, np.array([t]), np.array([p])), dtype=float)
-        for l, m in py_lm_order(Ld):
-            if p == 0.0 and d[1, row_index(l, m), 0] != 0.0:
-                ctx.fail("oracle", "utils.generate_derivative_real_spherical_harmonics:pole-convention",
-                         f"at phi = 0 the phi-derivative of row (l={l}, m={m}) is {d[1, row_index(l, m), 0]!r}, documented convention 0",
-                         witness={"theta": t, "phi": p, "l": l, "m": m})
-            if not abs(d[0, row_index(l, m), 0] + m * Y[row_index(l, -m), 0]) <= 1e-12 * (l + 1):
-                ctx.fail("oracle", "utils.generate_derivative_real_spherical_harmonics:dtheta-identity",
-                         f"d/dtheta Y_({l},{m}) = {d[0, row_index(l, m), 0]!r} but -m Y_({l},{-m}) = {-m * Y[row_index(l, -m), 0]!r} at theta={t!r}, phi={p!r}",
-                         witness={"theta": t, "phi": p, "l": l, "m": m})
+    def _p_derivatives():
+        # (d) derivatives: 50-digit numerical derivative of the definition vs the routine, away from the poles;
+        #     pole convention; d/dtheta identity
+        Ld = 5 if not large else 8
+        dsel = [a for a in angs if abs(math.sin(a[1])) > 1e-3]
+        # angles outside the principal range (sin(phi) < 0, phi > 2 pi, negative) are always in
+        dsel = dsel if large else dsel[::3] + [a for a in dsel if a[2] in ("phi<0", "both<0", "phi in (pi,2pi)", "phi>2pi")]
+        dsel += [(ctx.rng.uniform(0, 6), ctx.rng.uniform(-3 * PI + 0.2, -2 * PI - 0.2), "phi in (-3pi,-2pi)"),
+                 (ctx.rng.uniform(-6, 0), ctx.rng.uniform(-PI + 0.2, -0.2), "phi in (-pi,0)")]
+        # close to, but not on, the polar axis: the documented zero convention applies only where |tan(phi)| < 1e-10 (the code's
+        # threshold); from 1.01e-10 on the routine must return the true derivative (m = +-1 rows are O(1) there)
+        for _ in range(3 if not large else 12):
+            e = 10 ** ctx.rng.uniform(-9.99, -3.0)
+            dsel.append((ctx.rng.uniform(0, 6), ctx.rng.choice([e, -e, PI - e, PI + e, 2 * PI + e]), "near-pole"))
+        dsel += [(ctx.rng.uniform(0, 6), 1.05e-10, "near-pole"), (ctx.rng.uniform(0, 6), PI - 3e-9, "near-pole")]
+        for t, p, tag in dsel:
+            d = np.asarray(ut.generate_derivative_real_spherical_harmonics(Ld, np.array([t]), np.array([p])), dtype=float)
+            for l, m in py_lm_order(Ld):
+                row = row_index(l, m)
+                # the definition is evaluated at the point of the sphere, so differentiate along the curves theta+h, phi+h
+                wt = float(mp.diff(lambda x: mp_ylm(mp, l, m, mp.mpf(t) + x, p), 0, h=mp.mpf(10) ** -15))
+                wp = float(mp.diff(lambda x: mp_ylm(mp, l, m, t, mp.mpf(p) + x), 0, h=mp.mpf(10) ** -15))
+                for comp, want in ((0, wt), (1, wp)):
+                    got = float(d[comp, row, 0])
+                    # the routine forms cos/sin(float(m) * theta) in double precision: the rounding of m * theta is part of the input
+                    if not abs(got - want) <= (1e-10 + 1e-15 * (Ld + 1) ** 2 * abs(t)) * max(1.0, abs(want)):
+                        cls = "principal" if 0 <= p <= PI else "outside-principal-range"
+                        ctx.fail("oracle", f"utils.generate_derivative_real_spherical_harmonics:d{['theta', 'phi'][comp]}:{cls}",
+                                 f"generate_derivative_real_spherical_harmonics(l_max={Ld}, theta={t!r}, phi={p!r})[{comp}] row (l={l}, m={m}) = {got!r}, "
+                                 f"derivative of the definition (50 digits) {want!r}",
+                                 witness={"l_max": Ld, "theta": t, "phi": p, "l": l, "m": m, "component": ["theta", "phi"][comp],
+                                          "got": got, "want": want, "angle_class": tag},
+                                 snippet=SNIP_DER.format(L=Ld, theta=t, phi=p, row=row, comp=comp))
+        # pole convention: at phi = 0 the derivative with respect to phi is returned as 0 (documented); the theta derivative
+        # is -m Y_{l,-m} everywhere
+        for t, p, tag in [a for a in angs if a[2] in ("north-pole", "zero")] + angs[5:9]:
+            d = np.asarray(ut.generate_derivative_real_spherical_harmonics(Ld, np.array([t]), np.array([p])), dtype=float)
+            Y = np.asarray(ut.generate_real_spherical_harmonics(Ld, np.array([t]), np.array([p])), dtype=float)
+            for l, m in py_lm_order(Ld):
+                if p == 0.0 and d[1, row_index(l, m), 0] != 0.0:
+                    ctx.fail("oracle", "utils.generate_derivative_real_spherical_harmonics:pole-convention",
+                             f"at phi = 0 the phi-derivative of row (l={l}, m={m}) is {d[1, row_index(l, m), 0]!r}, documented convention 0",
+                             witness={"theta": t, "phi": p, "l": l, "m": m})
+                if not abs(d[0, row_index(l, m), 0] + m * Y[row_index(l, -m), 0]) <= 1e-12 * (l + 1):
+                    ctx.fail("oracle", "utils.generate_derivative_real_spherical_harmonics:dtheta-identity",
+                             f"d/dtheta Y_({l},{m}) = {d[0, row_index(l, m), 0]!r} but -m Y_({l},{-m}) = {-m * Y[row_index(l, -m), 0]!r} at theta={t!r}, phi={p!r}",
+                             witness={"theta": t, "phi": p, "l": l, "m": m})
 
-    # (e) solid harmonics: definition (50 digits) and the Cartesian polynomials of degree <= 2
-    Ls = 6 if not large else 15
-    for _ in range(4 if not large else 20):
-        c = [ctx.rng.uniform(-1, 1) for _ in range(3)]
-        q = [ctx.rng.uniform(-2, 2) for _ in range(3)]
-        sph = ut.convert_cart_to_sph(np.array([q]), np.array(c))
-        R = np.asarray(ut.solid_harmonics(Ls, sph), dtype=float)[:, 0]
-        r, t, p = (float(v) for v in sph[0])
-        x, y, z = (q[i] - c[i] for i in range(3))
-        cart = {(0, 0): 1.0, (1, 0): z, (1, 1): x, (1, -1): y,
-                (2, 0): (3 * z * z - (x * x + y * y + z * z)) / 2, (2, 1): math.sqrt(3) * x * z, (2, -1): math.sqrt(3) * y * z,
-                (2, 2): math.sqrt(3) / 2 * (x * x - y * y), (2, -2): math.sqrt(3) * x * y}
-        for (l, m), want in cart.items():
-            got = float(R[row_index(l, m)])
-            if not abs(got - want) <= 1e-12 * max(1.0, r ** l):
-                ctx.fail("oracle", "utils.solid_harmonics:cartesian", f"solid harmonic (l={l}, m={m}) of the point {q} about {c} is {got!r}, Cartesian form {want!r}",
-                         witness={"point": q, "center": c, "l": l, "m": m, "got": got, "want": want})
-        for l, m in ctx.rng.sample(py_lm_order(Ls), 12):
-            want = float(mp.sqrt(4 * mp.pi / (2 * l + 1)) * mp.mpf(r) ** l * mp_ylm(mp, l, m, t, p))
-            got = float(R[row_index(l, m)])
-            if not abs(got - want) <= 1e-12 * (Ls + 1) * max(1.0, r ** l):
-                ctx.fail("oracle", "utils.solid_harmonics:definition", f"solid harmonic (l={l}, m={m}) at (r,theta,phi)=({r!r},{t!r},{p!r}) is {got!r}, "
-                         f"sqrt(4 pi/(2l+1)) r^l Y_lm = {want!r}", witness={"r": r, "theta": t, "phi": p, "l": l, "m": m})
-    R0 = np.asarray(ut.solid_harmonics(3, np.array([[0.0, 0.3, 0.4]])), dtype=float)[:, 0]
-    if not (abs(R0[0] - 1.0) <= 1e-15 and np.all(R0[1:] == 0.0)):
-        ctx.fail("oracle", "utils.solid_harmonics:r=0", f"solid harmonics at r = 0 are {R0.tolist()}, expected [1, 0, 0, ...]")
+    def _p_solid():
+        # (e) solid harmonics: definition (50 digits) and the Cartesian polynomials of degree <= 2
+        Ls = 6 if not large else 15
+        for _ in range(4 if not large else 20):
+            c = [ctx.rng.uniform(-1, 1) for _ in range(3)]
+            q = [ctx.rng.uniform(-2, 2) for _ in range(3)]
+            sph = ut.convert_cart_to_sph(np.array([q]), np.array(c))
+            R = np.asarray(ut.solid_harmonics(Ls, sph), dtype=float)[:, 0]
+            r, t, p = (float(v) for v in sph[0])
+            x, y, z = (q[i] - c[i] for i in range(3))
+            cart = {(0, 0): 1.0, (1, 0): z, (1, 1): x, (1, -1): y,
+                    (2, 0): (3 * z * z - (x * x + y * y + z * z)) / 2, (2, 1): math.sqrt(3) * x * z, (2, -1): math.sqrt(3) * y * z,
+                    (2, 2): math.sqrt(3) / 2 * (x * x - y * y), (2, -2): math.sqrt(3) * x * y}
+            for (l, m), want in cart.items():
+                got = float(R[row_index(l, m)])
+                if not abs(got - want) <= 1e-12 * max(1.0, r ** l):
+                    ctx.fail("oracle", "utils.solid_harmonics:cartesian", f"solid harmonic (l={l}, m={m}) of the point {q} about {c} is {got!r}, Cartesian form {want!r}",
+                             witness={"point": q, "center": c, "l": l, "m": m, "got": got, "want": want})
+            for l, m in ctx.rng.sample(py_lm_order(Ls), 12):
+                want = float(mp.sqrt(4 * mp.pi / (2 * l + 1)) * mp.mpf(r) ** l * mp_ylm(mp, l, m, t, p))
+                got = float(R[row_index(l, m)])
+                if not abs(got - want) <= 1e-12 * (Ls + 1) * max(1.0, r ** l):
+                    ctx.fail("oracle", "utils.solid_harmonics:definition", f"solid harmonic (l={l}, m={m}) at (r,theta,phi)=({r!r},{t!r},{p!r}) is {got!r}, "
+                             f"sqrt(4 pi/(2l+1)) r^l Y_lm = {want!r}", witness={"r": r, "theta": t, "phi": p, "l": l, "m": m})
+        R0 = np.asarray(ut.solid_harmonics(3, np.array([[0.0, 0.3, 0.4]])), dtype=float)[:, 0]
+        if not (abs(R0[0] - 1.0) <= 1e-15 and np.all(R0[1:] == 0.0)):
+            ctx.fail("oracle", "utils.solid_harmonics:r=0", f"solid harmonics at r = 0 are {R0.tolist()}, expected [1, 0, 0, ...]")
 
-    # (f) round trip and r = 0
-    for _ in range(40 if not large else 1000):
-        c = [ctx.rng.uniform(-3, 3) for _ in range(3)] if ctx.rng.random() < 0.8 else None
-        q = [ctx.rng.uniform(-5, 5) for _ in range(3)]
-        if ctx.rng.random() < 0.15:  # on the polar axis through the centre
-            q = [c[0], c[1], q[2]] if c is not None else [0.0, 0.0, q[2]]
-        sph = ut.convert_cart_to_sph(np.array([q]), None if c is None else np.array(c))[0]
-        r, t, p = (float(v) for v in sph)
-        cc = c or [0.0, 0.0, 0.0]
-        back = [cc[0] + r * math.cos(t) * math.sin(p), cc[1] + r * math.sin(t) * math.sin(p), cc[2] + r * math.cos(p)]
-        if not all(abs(a - b) <= 1e-13 * max(1.0, r) for a, b in zip(back, q)) or not (r >= 0 and -PI <= t <= PI and 0 <= p <= PI):
-            ctx.fail("oracle", "utils.convert_cart_to_sph:roundtrip", f"convert_cart_to_sph({q}, center={c}) = {[r, t, p]} maps back to {back}",
-                     witness={"point": q, "center": c, "sph": [r, t, p], "back": back},
-                     snippet=("import numpy as np, math\nfrom grid.utils import convert_cart_to_sph\n"
-                              f"q, c = {q!r}, {cc!r}\nr, t, p = convert_cart_to_sph(np.array([q]), np.array(c))[0]\n"
-                              "back = [c[0] + r*math.cos(t)*math.sin(p), c[1] + r*math.sin(t)*math.sin(p), c[2] + r*math.cos(p)]\n"
-                              "assert all(abs(a - b) <= 1e-12*max(1, r) for a, b in zip(back, q)), (back, q)\n"))
-    for c in ([0.0, 0.0, 0.0], [ctx.rng.uniform(-3, 3) for _ in range(3)]):
-        s0 = ut.convert_cart_to_sph(np.array([c]), np.array(c))[0]
-        if not (s0[0] == 0.0 and s0[1] == 0.0 and s0[2] == 0.0):
-            ctx.fail("oracle", "utils.convert_cart_to_sph:r=0", f"the centre itself maps to {s0.tolist()}, expected (0, 0, 0)", witness={"center": c})
+    def _p_round_trip():
+        # (f) round trip and r = 0
+        for _ in range(40 if not large else 1000):
+            c = [ctx.rng.uniform(-3, 3) for _ in range(3)] if ctx.rng.random() < 0.8 else None
+            q = [ctx.rng.uniform(-5, 5) for _ in range(3)]
+            if ctx.rng.random() < 0.15:  # on the polar axis through the centre
+                q = [c[0], c[1], q[2]] if c is not None else [0.0, 0.0, q[2]]
+            sph = ut.convert_cart_to_sph(np.array([q]), None if c is None else np.array(c))[0]
+            r, t, p = (float(v) for v in sph)
+            cc = c or [0.0, 0.0, 0.0]
+            back = [cc[0] + r * math.cos(t) * math.sin(p), cc[1] + r * math.sin(t) * math.sin(p), cc[2] + r * math.cos(p)]
+            if not all(abs(a - b) <= 1e-13 * max(1.0, r) for a, b in zip(back, q)) or not (r >= 0 and -PI <= t <= PI and 0 <= p <= PI):
+                ctx.fail("oracle", "utils.convert_cart_to_sph:roundtrip", f"convert_cart_to_sph({q}, center={c}) = {[r, t, p]} maps back to {back}",
+                         witness={"point": q, "center": c, "sph": [r, t, p], "back": back},
+                         snippet=("import numpy as np, math\nfrom grid.utils import convert_cart_to_sph\n"
+                                  f"q, c = {q!r}, {cc!r}\nr, t, p = convert_cart_to_sph(np.array([q]), np.array(c))[0]\n"
+                                  "back = [c[0] + r*math.cos(t)*math.sin(p), c[1] + r*math.sin(t)*math.sin(p), c[2] + r*math.cos(p)]\n"
+                                  "assert all(abs(a - b) <= 1e-12*max(1, r) for a, b in zip(back, q)), (back, q)\n"))
+        for c in ([0.0, 0.0, 0.0], [ctx.rng.uniform(-3, 3) for _ in range(3)]):
+            s0 = ut.convert_cart_to_sph(np.array([c]), np.array(c))[0]
+            if not (s0[0] == 0.0 and s0[1] == 0.0 and s0[2] == 0.0):
+                ctx.fail("oracle", "utils.convert_cart_to_sph:r=0", f"the centre itself maps to {s0.tolist()}, expected (0, 0, 0)", witness={"center": c})
 
-    # (g) derivative conversion: gradient of a polynomial through its spherical derivatives
-    for _ in range(10 if not large else 200):
-        co = [ctx.rng.uniform(-1, 1) for _ in range(6)]
-        r, t, p = ctx.rng.uniform(0.2, 3), ctx.rng.uniform(-7, 7), ctx.rng.uniform(0.1, 3.0)
-        x, y, z = r * math.cos(t) * math.sin(p), r * math.sin(t) * math.sin(p), r * math.cos(p)
-        # f = a x + b y + c z + d x y + e y z + g z z
-        grad = [co[0] + co[3] * y, co[1] + co[3] * x + co[4] * z, co[2] + co[4] * y + 2 * co[5] * z]
-        dxr = [math.cos(t) * math.sin(p), math.sin(t) * math.sin(p), math.cos(p)]
-        dxt = [-r * math.sin(t) * math.sin(p), r * math.cos(t) * math.sin(p), 0.0]
-        dxp = [r * math.cos(t) * math.cos(p), r * math.sin(t) * math.cos(p), -r * math.sin(p)]
-        fr, ft, fp = (sum(g * d for g, d in zip(grad, dd)) for dd in (dxr, dxt, dxp))
-        got = np.asarray(ut.convert_derivative_from_spherical_to_cartesian(fr, ft, fp, r, t, p), dtype=float)
-        if not all(abs(a - b) <= 1e-11 * max(1.0, max(abs(v) for v in grad)) / min(1.0, abs(math.sin(p))) for a, b in zip(got, grad)):
-            ctx.fail("oracle", "utils.convert_derivative_from_spherical_to_cartesian:gradient",
-                     f"gradient of a quadratic at (r,theta,phi)=({r!r},{t!r},{p!r}): routine {got.tolist()}, exact {grad}",
-                     witness={"coeffs": co, "r": r, "theta": t, "phi": p, "got": got.tolist(), "want": grad})
-    g0 = np.asarray(ut.convert_derivative_from_spherical_to_cartesian(1.0, 2.0, 3.0, 0.0, 0.3, 0.4), dtype=float)
-    w0 = [math.cos(0.3) * math.sin(0.4), math.sin(0.3) * math.sin(0.4), math.cos(0.4)]
-    if not all(abs(a - b) <= 1e-15 for a, b in zip(g0, w0)):
-        ctx.fail("oracle", "utils.convert_derivative_from_spherical_to_cartesian:r=0", f"r = 0 convention: {g0.tolist()} vs radial part only {w0}")
+    def _p_conv_deriv():
+        # (g) derivative conversion: gradient of a polynomial through its spherical derivatives
+        for _ in range(10 if not large else 200):
+            co = [ctx.rng.uniform(-1, 1) for _ in range(6)]
+            r, t, p = ctx.rng.uniform(0.2, 3), ctx.rng.uniform(-7, 7), ctx.rng.uniform(0.1, 3.0)
+            x, y, z = r * math.cos(t) * math.sin(p), r * math.sin(t) * math.sin(p), r * math.cos(p)
+            # f = a x + b y + c z + d x y + e y z + g z z
+            grad = [co[0] + co[3] * y, co[1] + co[3] * x + co[4] * z, co[2] + co[4] * y + 2 * co[5] * z]
+            dxr = [math.cos(t) * math.sin(p), math.sin(t) * math.sin(p), math.cos(p)]
+            dxt = [-r * math.sin(t) * math.sin(p), r * math.cos(t) * math.sin(p), 0.0]
+            dxp = [r * math.cos(t) * math.cos(p), r * math.sin(t) * math.cos(p), -r * math.sin(p)]
+            fr, ft, fp = (sum(g * d for g, d in zip(grad, dd)) for dd in (dxr, dxt, dxp))
+            got = np.asarray(ut.convert_derivative_from_spherical_to_cartesian(fr, ft, fp, r, t, p), dtype=float)
+            if not all(abs(a - b) <= 1e-11 * max(1.0, max(abs(v) for v in grad)) / min(1.0, abs(math.sin(p))) for a, b in zip(got, grad)):
+                ctx.fail("oracle", "utils.convert_derivative_from_spherical_to_cartesian:gradient",
+                         f"gradient of a quadratic at (r,theta,phi)=({r!r},{t!r},{p!r}): routine {got.tolist()}, exact {grad}",
+                         witness={"coeffs": co, "r": r, "theta": t, "phi": p, "got": got.tolist(), "want": grad})
+        g0 = np.asarray(ut.convert_derivative_from_spherical_to_cartesian(1.0, 2.0, 3.0, 0.0, 0.3, 0.4), dtype=float)
+        w0 = [math.cos(0.3) * math.sin(0.4), math.sin(0.3) * math.sin(0.4), math.cos(0.4)]
+        if not all(abs(a - b) <= 1e-15 for a, b in zip(g0, w0)):
+            ctx.fail("oracle", "utils.convert_derivative_from_spherical_to_cartesian:r=0", f"r = 0 convention: {g0.tolist()} vs radial part only {w0}")
 
-    # (h) the same routines through every container / dtype kind, call route, kind of l_max, and in call histories
-    #     (overlapping arguments in different orders, same array twice, reuse after an in-place edit): the definition
-    #     must hold for every answer, independently of what was called before
-    _run_variants(ctx, ut, "oracle", _variants(ctx), _mp_refs(mp), "definition (50 digits)")
-    # (i) derivative routine and solid harmonics beyond l_max = 150
-    _oracle_high_degree(ctx, ut, mp)
-    # (j) convert_cart_to_sph inverts the parametrisation for every kind of points / centre, call route, radius, history
-    _run_c2s(ctx, ut, "oracle", mp)
-    # (k) round 3: the true gradient from the thresholds of the derivative conversion on; special points of a non-trivial frame
-    #     through convert_cart_to_sph -> solid_harmonics / derivative routine; exact translations; rows relative to r^l;
-    #     the routines after one another with results modified by the caller
-    _oracle_gradient_near_thresholds(ctx, ut, mp, large)
-    _oracle_outside_near_pole(ctx, ut, mp, large)
-    _special_point_pipeline(ctx, ut, "oracle", mp)
-    _far_centres(ctx, ut, "oracle")
-    _scaled_solid(ctx, ut, "oracle", mp)
-    _empty_inputs(ctx, ut, "oracle")
-    _cross_routine_history(ctx, ut, "oracle", mp)
+    _run_parts(ctx, "oracle", ut, [
+        ("definition", _p_definition), ("agreement", _p_agreement), ("addition-theorem", _p_addition_theorem),
+        ("derivatives", _p_derivatives), ("solid", _p_solid), ("round-trip", _p_round_trip), ("conv-deriv", _p_conv_deriv),
+        # (h) the same routines through every container / dtype kind, call route, kind of l_max, shape, and in call histories
+        #     (overlapping arguments in different orders, same array twice, reuse after an in-place edit): the definition
+        #     must hold for every answer, independently of what was called before
+        ("variants", lambda: _run_variants(ctx, ut, "oracle", _variants(ctx), _mp_refs(mp), "definition (50 digits)")),
+        # (i) derivative routine and solid harmonics beyond l_max = 150
+        ("high-degree", lambda: _oracle_high_degree(ctx, ut, mp)),
+        # (j) convert_cart_to_sph inverts the parametrisation for every kind of points / centre, call route, radius, history
+        ("c2s-variants", lambda: _run_c2s(ctx, ut, "oracle", mp)),
+        # (k) round 3: the true gradient from the thresholds of the derivative conversion on; special points of a non-trivial frame
+        #     through convert_cart_to_sph -> solid_harmonics / derivative routine; exact translations; rows relative to r^l;
+        #     the routines after one another with results modified by the caller
+        ("gradient-near-thresholds", lambda: _oracle_gradient_near_thresholds(ctx, ut, mp, large)),
+        ("outside-near-pole", lambda: _oracle_outside_near_pole(ctx, ut, mp, large)),
+        ("special-points", lambda: _special_point_pipeline(ctx, ut, "oracle", mp)),
+        ("far-centres", lambda: _far_centres(ctx, ut, "oracle")),
+        ("scaled-solid", lambda: _scaled_solid(ctx, ut, "oracle", mp)),
+        ("empty-inputs", lambda: _empty_inputs(ctx, ut, "oracle")),
+        ("cross-routine", lambda: _cross_routine_history(ctx, ut, "oracle", mp)),
+        # (l) round 4: arrays held by grid objects; one argument object (a view into a larger array) for several requests;
+        #     value kinds of the derivative data; calls that raise leave no trace; extreme radii through the pipeline
+        ("held-by-object", lambda: _object_held_arrays(ctx, ut, mp)),
+        ("shared-views", lambda: _shared_argument_views(ctx, ut)),
+        ("value-kinds", lambda: _value_kinds_conv_deriv(ctx, ut)),
+        ("after-rejected-calls", lambda: _rejected_calls_leave_no_trace(ctx, ut)),
+        ("extreme-pipeline", lambda: _extreme_pipeline(ctx, ut, "oracle", mp)),
+    ])
+
 
 
 def _oracle_point(ctx: Ctx, ut, mp, routine, L, t, p, r=None, lms=None):
